@@ -1,7 +1,7 @@
 (* Proofs about Model/BitVecModel.v: every opcode arm of the dispatch layer denotes the EVM
    result (Base/Word.v) for all operand values, valuations and operand representations. *)
-From Coq Require Import ZArith Lia ZifyBool List Bool.
-From HV Require Import Base.Word Base.SmtBV Gen.GenBitvecGuards Model.BitVecModel.
+From Coq Require Import ZArith Zpow_facts Lia ZifyBool List Bool.
+From HV Require Import Base.Word Base.SmtBV Model.PyInt Model.WordOpsIR Gen.GenBitvecGuards Gen.GenWordOps Model.BitVecModel.
 Import ListNotations.
 Open Scope Z_scope.
 
@@ -46,7 +46,7 @@ Section WithEnv.
     den (bv_add n a b) = (den a + den b) mod 2 ^ n.
   Proof.
     intros Hn Ha Hb.
-    destruct a as [x|t], b as [y|u]; cbn [bv_add]; try (apply mk_int_den; assumption);
+    destruct a as [x|t], b as [y|u]; cbn [bv_add]; unfold r_add_1; try (apply mk_int_den; assumption);
       cbn [bv_den eval binop_eval]; rewrite !z3_of_den by assumption; reflexivity.
   Qed.
 
@@ -54,7 +54,7 @@ Section WithEnv.
     den (bv_sub n a b) = (den a - den b) mod 2 ^ n.
   Proof.
     intros Hn Ha Hb.
-    destruct a as [x|t], b as [y|u]; cbn [bv_sub]; try (apply mk_int_den; assumption);
+    destruct a as [x|t], b as [y|u]; cbn [bv_sub]; unfold r_sub_1; try (apply mk_int_den; assumption);
       cbn [bv_den eval binop_eval]; rewrite !z3_of_den by assumption; reflexivity.
   Qed.
 
@@ -71,22 +71,6 @@ Section WithEnv.
   Proof.
     intros H. unfold bvwf. rewrite popi_den.
     destruct v as [x|b]; cbn [denote]; [exact H | apply b2w_range].
-  Qed.
-
-  Lemma run_add sebc a b : wf ev eb a -> wf ev eb b ->
-    exists r, run2 sebc ADD a b = Ok r /\ dn r = evm_add (dn a) (dn b).
-  Proof.
-    intros Ha Hb. eexists; split; [reflexivity|].
-    cbn [denote]. rewrite bv_add_den by (try apply popi_wf; auto; lia).
-    rewrite !popi_den. reflexivity.
-  Qed.
-
-  Lemma run_sub sebc a b : wf ev eb a -> wf ev eb b ->
-    exists r, run2 sebc SUB a b = Ok r /\ dn r = evm_sub (dn a) (dn b).
-  Proof.
-    intros Ha Hb. eexists; split; [reflexivity|].
-    cbn [denote]. rewrite bv_sub_den by (try apply popi_wf; auto; lia).
-    rewrite !popi_den. reflexivity.
   Qed.
 
   (* ---------------------------------------------------------------- comparisons *)
@@ -229,11 +213,11 @@ Section WithEnv.
   Qed.
 
   Lemma bv_and_den n a b : 0 <= n -> wfn n a -> wfn n b -> den (bv_and n a b) = Z.land (den a) (den b).
-  Proof. intros; apply bv_bitop_den; auto using mask_land. Qed.
+  Proof. intros; apply (bv_bitop_den And (fun x y => r_bitwise_and_1 y x)); auto; intros; unfold r_bitwise_and_1; first [apply mask_land|reflexivity]. Qed.
   Lemma bv_or_den n a b : 0 <= n -> wfn n a -> wfn n b -> den (bv_or n a b) = Z.lor (den a) (den b).
-  Proof. intros; apply bv_bitop_den; auto using mask_lor. Qed.
+  Proof. intros; apply (bv_bitop_den Or (fun x y => r_bitwise_or_1 y x)); auto; intros; unfold r_bitwise_or_1; first [apply mask_lor|reflexivity]. Qed.
   Lemma bv_xor_den n a b : 0 <= n -> wfn n a -> wfn n b -> den (bv_xor n a b) = Z.lxor (den a) (den b).
-  Proof. intros; apply bv_bitop_den; auto using mask_lxor. Qed.
+  Proof. intros; apply (bv_bitop_den Xor (fun x y => r_bitwise_xor_1 y x)); auto; intros; unfold r_bitwise_xor_1; first [apply mask_lxor|reflexivity]. Qed.
 
   Lemma mod_shift P z k : 0 < P -> 0 <= z + k * P < P -> z mod P = z + k * P.
   Proof. intros HP H. symmetry. apply (Z.mod_unique z P (- k)); lia. Qed.
@@ -243,8 +227,12 @@ Section WithEnv.
     intros Hn Ha. pose proof (pow2_pos n Hn) as HP.
     destruct a as [x|t]; cbn [bv_not bv_den eval mk_int]; [|reflexivity].
     unfold bvwf in Ha; cbn [bv_den] in Ha.
-    fold (py_mask n (Z.lnot x)). rewrite !mask_mod, Z.mod_mod by lia.
-    unfold Z.lnot. rewrite (mod_shift (2 ^ n) (Z.pred (- x)) 1); lia.
+    unfold r_bitwise_not_1. rewrite Z.shiftl_1_l.
+    assert (E : Z.land (- x - 1) (2 ^ n - 1) = (- x - 1) mod 2 ^ n).
+    { rewrite <- Z.land_ones by lia. f_equal. rewrite Z.ones_equiv. lia. }
+    rewrite E. fold (py_mask n ((- x - 1) mod 2 ^ n)).
+    rewrite mask_mod, Z.mod_mod by lia.
+    rewrite (mod_shift (2 ^ n) (- x - 1) 1); lia.
   Qed.
 
   (* ---------------------------------------------------------------- shifts *)
@@ -257,16 +245,20 @@ Section WithEnv.
     intros Hn Ha Hs. pose proof (pow2_pos n ltac:(lia)) as HP.
     unfold bvwf in *.
     destruct s as [k|st]; cbn [bv_lshl bv_den] in *.
-    - unfold g_lshl_1, g_lshl_2.
+    - unfold g_lshl_1.
       destruct (Z.eqb_spec k 0) as [->|Hk0].
       { destruct (Z.ltb_spec 0 n); [|lia]. rewrite Z.pow_0_r, Z.mul_1_r, Z.mod_small; auto. }
-      destruct (Z.leb_spec n k) as [Hge|Hlt].
-      { destruct (Z.ltb_spec k n); [lia|]. rewrite mk_int_den by lia. apply Z.mod_0_l; lia. }
-      destruct (Z.ltb_spec k n); [|lia].
+      assert (Hbig : n <= k -> (den a * 2 ^ k) mod 2 ^ n = 0).
+      { intros Hge. replace k with (n + (k - n)) by lia. rewrite Z.pow_add_r by lia.
+        replace (den a * (2 ^ n * 2 ^ (k - n))) with (den a * 2 ^ (k - n) * 2 ^ n) by ring.
+        apply Z.mod_mul. lia. }
+      destruct (g_lshl_2 k n) eqn:G.
+      { (* the guard only fires for shifts of at least the size *)
+        unfold g_lshl_2 in G. destruct (Z.ltb_spec k n); [lia|]. rewrite mk_int_den by lia. apply Z.mod_0_l; lia. }
       destruct a as [x|t]; cbn [bv_den eval binop_eval].
-      + rewrite mk_int_den by lia. rewrite Z.shiftl_mul_pow2 by lia. reflexivity.
-      + unfold bvshl, bvmod. rewrite (Z.mod_small k) by lia.
-        destruct (Z.ltb_spec k n); [reflexivity|lia].
+      + unfold r_lshl_1. rewrite mk_int_den by lia. rewrite Z.shiftl_mul_pow2 by lia.
+        destruct (Z.ltb_spec k n); [reflexivity|]. apply (Hbig ltac:(lia)).
+      + unfold bvshl, bvmod. rewrite (Z.mod_small k) by lia. reflexivity.
     - cbn [eval binop_eval]. rewrite z3_of_den by assumption. reflexivity.
   Qed.
 
@@ -298,15 +290,16 @@ Section WithEnv.
     intros Hn Ha Hs. pose proof (pow2_pos n ltac:(lia)) as HP.
     unfold bvwf in *.
     destruct s as [k|st]; cbn [bv_lshr bv_den] in *.
-    - unfold g_lshr_1, g_lshr_2.
+    - unfold g_lshr_1.
       destruct (Z.eqb_spec k 0) as [->|Hk0].
       { destruct (Z.ltb_spec 0 n); [|lia]. rewrite Z.pow_0_r, Z.div_1_r; auto. }
       destruct a as [x|t]; cbn [bv_den eval binop_eval] in *.
-      + rewrite mk_int_den, py_shr_div by lia.
+      + unfold r_lshr_1. rewrite mk_int_den, py_shr_div by lia.
         rewrite Z.mod_small by (apply div_pow2_range; lia).
         destruct (Z.ltb_spec k n); [reflexivity|]. apply (div_pow2_small x k n); lia.
-      + destruct (Z.leb_spec n k) as [Hge|Hlt].
-        { destruct (Z.ltb_spec k n); [lia|]. rewrite mk_int_den by lia. apply Z.mod_0_l; lia. }
+      + destruct (g_lshr_2 k n) eqn:G.
+        { (* the guard only fires for shifts of at least the size *)
+          unfold g_lshr_2 in G. destruct (Z.ltb_spec k n); [lia|]. rewrite mk_int_den by lia. apply Z.mod_0_l; lia. }
         cbn [bv_den eval binop_eval]. unfold bvlshr, bvmod. rewrite (Z.mod_small k) by lia. reflexivity.
     - cbn [eval binop_eval]. rewrite z3_of_den by assumption. reflexivity.
   Qed.
@@ -474,10 +467,12 @@ Section WithEnv.
   Qed.
 
   (* ---------------------------------------------------------------- mul *)
-  Lemma bv_mul_den n abs a b : 0 < n -> wfn n a -> wfn n b ->
+  Definition abs_is (f : uf) (abs : option uf) : Prop := abs = Some f \/ abs = None.
+
+  Lemma bv_mul_den n abs a b : abs_is Fmul abs -> 0 < n -> wfn n a -> wfn n b ->
     den (bv_mul n abs a b) = (den a * den b) mod 2 ^ n.
   Proof.
-    intros Hn Ha Hb. pose proof (pow2_pos n ltac:(lia)) as HP.
+    intros Habs Hn Ha Hb. pose proof (pow2_pos n ltac:(lia)) as HP.
     assert (Hsh : forall (c : bv) x, wfn n c -> 0 <= x < 2 ^ n -> is_power_of_two x = true ->
               den (bv_lshl n c (mk_int n (bit_length x - 1))) = (den c * x) mod 2 ^ n).
     { intros c x Hc Hx Hp. destruct (pow2_char x Hp) as [Hx0 Hx2].
@@ -488,7 +483,7 @@ Section WithEnv.
       - unfold bvwf; cbn [bv_den]. pose proof (n_lt_pow2 n ltac:(lia)). lia. }
     unfold bvwf in Ha, Hb.
     destruct a as [x|t], b as [y|u]; cbn [bv_mul].
-    - apply mk_int_den; lia.
+    - unfold r_mul_1. apply mk_int_den; lia.
     - cbn [bv_den] in Ha. unfold g_mul_1, g_mul_2.
       destruct (Z.eqb_spec x 0) as [->|]; [cbn [bv_den]; rewrite Z.mul_0_l, Z.mod_0_l; lia|].
       destruct (Z.eqb_spec x 1) as [->|]; [rewrite Z.mul_1_l, Z.mod_small; auto|].
@@ -502,12 +497,12 @@ Section WithEnv.
       + rewrite Hsh; auto.
       + cbn [bv_den eval binop_eval]. unfold bvmul, bvmod. rewrite (Z.mod_small y) by assumption.
         f_equal; lia.
-    - destruct abs; reflexivity.
+    - destruct Habs as [-> | ->]; reflexivity.
   Qed.
 
-  Lemma bv_mul_wf n abs a b : 0 < n -> wfn n a -> wfn n b -> wfn n (bv_mul n abs a b).
+  Lemma bv_mul_wf n abs a b : abs_is Fmul abs -> 0 < n -> wfn n a -> wfn n b -> wfn n (bv_mul n abs a b).
   Proof.
-    intros Hn Ha Hb. unfold bvwf. rewrite bv_mul_den by assumption.
+    intros Habs Hn Ha Hb. unfold bvwf. rewrite bv_mul_den by assumption.
     apply Z.mod_pos_bound. apply pow2_pos; lia.
   Qed.
 
@@ -518,22 +513,28 @@ Section WithEnv.
     apply Z.le_lt_trans with x; [|lia]. apply Z.div_le_upper_bound; [lia|]. nia.
   Qed.
 
+  Lemma py_arith_ok n d v : existsb (Z.eqb 0) d = false -> py_arith n d v = Ok (mk_int n v).
+  Proof. intros H. unfold py_arith. rewrite H. reflexivity. Qed.
+
   Lemma bv_div_den n a b : 0 < n -> wfn n a -> wfn n b ->
-    den (bv_div n true a b) = if den b =? 0 then 0 else den a / den b.
+    exists r, bv_div n (Some Fudiv) a b = Ok r /\ den r = if den b =? 0 then 0 else den a / den b.
   Proof.
     intros Hn Ha Hb. pose proof (pow2_pos n ltac:(lia)) as HP.
     assert (Hslow : den (Sv (TUF Fudiv n (z3_of n a) (z3_of n b))) = if den b =? 0 then 0 else den a / den b).
     { cbn [bv_den eval uf_eval]. rewrite !z3_of_den by assumption. unfold bvudiv.
       destruct (den b =? 0); reflexivity. }
-    unfold bv_div. destruct b as [y|u]; [|exact Hslow].
+    unfold bv_div. destruct b as [y|u]; [|eexists; split; [reflexivity|exact Hslow]].
     unfold bvwf in Hb; cbn [bv_den] in Hb. unfold g_div_1, g_div_2.
-    destruct (Z.eqb_spec y 0) as [->|Hy0]; [reflexivity|].
-    destruct (Z.eqb_spec y 1) as [->|Hy1]; [cbn [bv_den]; rewrite Z.div_1_r; reflexivity|].
-    cbn [bv_den]. destruct (Z.eqb_spec y 0); [lia|].
+    destruct (Z.eqb_spec y 0) as [->|Hy0]; [eexists; split; reflexivity|].
+    destruct (Z.eqb_spec y 1) as [->|Hy1];
+      [eexists; split; [reflexivity|]; cbn [bv_den]; rewrite Z.div_1_r; reflexivity|].
     destruct a as [x|t].
-    - unfold bvwf in Ha; cbn [bv_den] in *. rewrite mk_int_den by lia.
+    - unfold rd_div_1, r_div_1. rewrite py_arith_ok by (cbn [existsb]; destruct (Z.eqb_spec 0 y); [lia|reflexivity]).
+      eexists; split; [reflexivity|].
+      unfold bvwf in Ha; cbn [bv_den] in *. destruct (Z.eqb_spec y 0); [lia|]. rewrite mk_int_den by lia.
       apply Z.mod_small. apply div_range; lia.
-    - destruct (is_power_of_two y) eqn:Hp.
+    - eexists; split; [reflexivity|]. cbn [bv_den]. destruct (Z.eqb_spec y 0); [lia|].
+      destruct (is_power_of_two y) eqn:Hp.
       + destruct (pow2_char y Hp) as [Hy Hy2]. rewrite bit_length_log2 by assumption.
         destruct (log2_shift_wf n y Hn ltac:(lia)) as [-> Hl].
         rewrite bv_lshr_den; try assumption.
@@ -543,91 +544,250 @@ Section WithEnv.
   Qed.
 
   Lemma bv_mod_den n a b : 0 < n -> wfn n a -> wfn n b ->
-    den (bv_mod n true a b) = if den b =? 0 then 0 else den a mod den b.
+    exists r, bv_mod n (Some Furem) a b = Ok r /\ den r = if den b =? 0 then 0 else den a mod den b.
   Proof.
     intros Hn Ha Hb. pose proof (pow2_pos n ltac:(lia)) as HP.
     assert (Hslow : den (Sv (TUF Furem n (z3_of n a) (z3_of n b))) = if den b =? 0 then 0 else den a mod den b).
     { cbn [bv_den eval uf_eval]. rewrite !z3_of_den by assumption. unfold bvurem.
       destruct (den b =? 0); reflexivity. }
-    unfold bv_mod. destruct b as [y|u]; [|exact Hslow].
+    unfold bv_mod. destruct b as [y|u]; [|eexists; split; [reflexivity|exact Hslow]].
     unfold bvwf in Hb; cbn [bv_den] in Hb. unfold g_mod_1, g_mod_2.
-    destruct (Z.eqb_spec y 0) as [->|Hy0]; [reflexivity|].
+    destruct (Z.eqb_spec y 0) as [->|Hy0]; [eexists; split; reflexivity|].
     destruct (Z.eqb_spec y 1) as [->|Hy1].
-    { rewrite mk_int_den by lia. cbn [bv_den]. rewrite Z.mod_1_r, Z.mod_0_l by lia. reflexivity. }
-    cbn [bv_den]. destruct (Z.eqb_spec y 0); [lia|].
+    { eexists; split; [reflexivity|]. rewrite mk_int_den by lia. cbn [bv_den].
+      rewrite Z.mod_1_r, Z.mod_0_l by lia. reflexivity. }
     destruct a as [x|t].
-    - unfold bvwf in Ha; cbn [bv_den] in *. rewrite mk_int_den by lia.
+    - unfold rd_mod_1, r_mod_1. rewrite py_arith_ok by (cbn [existsb]; destruct (Z.eqb_spec 0 y); [lia|reflexivity]).
+      eexists; split; [reflexivity|].
+      unfold bvwf in Ha; cbn [bv_den] in *. destruct (Z.eqb_spec y 0); [lia|]. rewrite mk_int_den by lia.
       apply Z.mod_small. pose proof (Z.mod_pos_bound x y ltac:(lia)). lia.
-    - destruct (is_power_of_two y) eqn:Hp.
-      + destruct (pow2_char y Hp) as [Hy Hy2]. rewrite bit_length_log2 by assumption.
+    - eexists; split; [reflexivity|]. cbn [bv_den]. destruct (Z.eqb_spec y 0); [lia|].
+      destruct (is_power_of_two y) eqn:Hp.
+      + destruct (pow2_char y Hp) as [Hy Hy2]. unfold e_mod_bitsize. rewrite bit_length_log2 by assumption.
         cbv zeta. cbn [bv_den eval]. unfold bvzext, bvextract.
         rewrite Z.pow_0_r, Z.div_1_r. replace (Z.log2 y - 1 - 0 + 1) with (Z.log2 y) by lia.
         rewrite <- Hy2. reflexivity.
       + rewrite Hslow. cbn [bv_den]. destruct (Z.eqb_spec y 0); [lia|reflexivity].
   Qed.
 
-  Lemma bv_mod_wf n a b : 0 < n -> wfn n a -> wfn n b -> wfn n (bv_mod n true a b).
+  Lemma mod_result_wf n a b r : 0 < n -> wfn n a -> wfn n b ->
+    den r = (if den b =? 0 then 0 else den a mod den b) -> wfn n r.
   Proof.
-    intros Hn Ha Hb. unfold bvwf. rewrite bv_mod_den by assumption.
-    unfold bvwf in *. destruct (Z.eqb_spec (den b) 0); [lia|].
+    intros Hn Ha Hb D. unfold bvwf in *. rewrite D. destruct (Z.eqb_spec (den b) 0); [lia|].
     pose proof (Z.mod_pos_bound (den a) (den b) ltac:(lia)). lia.
   Qed.
 
 
+  (* ================================================================ reference dispatch *)
+  (* The dispatch layer written by hand, arm by arm.  The model proper (run2s / run1s / run3s in
+     Model/BitVecModel.v) INTERPRETS the arm bodies regenerated from sevm.py; the lemmas
+     run2s_is_ref / run1s_is_ref / run3s_is_ref below show, by computation on the regenerated arms,
+     that it does what this reference does - for every operand representation and every rest of
+     the stack, including the depth of the stack afterwards and the path constraints appended.
+     All semantic lemmas are then proved about the reference. *)
+  Definition bitwise_ref (f : bl -> bl -> bl) (g : Z -> bv -> bv -> bv) (x y : val) : val :=
+    match x, y with
+    | VBool p, VBool q => VBool (f p q)
+    | VBV p, VBV q => VBV (g 256 p q)
+    | _, _ => VBV (g 256 (to_bv256 x) (to_bv256 y))
+    end.
+
+  (* a = top of the stack, b = the word below it *)
+  Definition run2_ref (sebc : Z) (o : op) (a b : val) : res val :=
+    match o with
+    | ADD => lift (bv_add 256 (popi a) (popi b))
+    | SUB => lift (bv_sub 256 (popi a) (popi b))
+    | MUL => lift (bv_mul 256 (Some Fmul) (popi a) (popi b))
+    | DIV => liftr (bv_div 256 (Some Fudiv) (popi a) (popi b))
+    | MOD => liftr (bv_mod 256 (Some Furem) (popi a) (popi b))
+    | SDIV => liftr (bv_sdiv 256 (Some Fsdiv) (popi a) (popi b))
+    | SMOD => lift (bv_smod 256 (Some Fsrem) (popi a) (popi b))
+    | EXP => liftr (bv_exp 256 (Some Fexp) (Some Fmul) sebc (popi a) (popi b))
+    | SIGNEXTEND =>
+        match popi a with                         (* ex.int_of(state.popi(), ...) *)
+        | Cv size => lift (bv_signextend (popi b) size)
+        | Sv _ => Err ENotConcrete
+        end
+    | LT => Ok (VBool (bv_ult 256 (popi a) (popi b)))
+    | GT => Ok (VBool (bv_ugt 256 (popi a) (popi b)))
+    | SLT => Ok (VBool (bv_slt 256 (popi a) (popi b)))
+    | SGT => Ok (VBool (bv_sgt 256 (popi a) (popi b)))
+    | EQ =>
+        match a, b with
+        | VBool p, VBool q => Ok (VBool (bl_eq p q))
+        | VBV p, VBV q => Ok (VBool (bv_eq 256 p q))
+        | _, _ => Ok (VBool (bv_eq 256 (to_bv256 a) (to_bv256 b)))
+        end
+    | AND => Ok (bitwise_ref bl_and bv_and a b)
+    | OR => Ok (bitwise_ref bl_or bv_or a b)
+    | XOR => lift (bv_xor 256 (popi a) (popi b))
+    | BYTE =>
+        match popi a with
+        | Cv idx => lift (bv_byte 256 (popi b) idx 256)
+        | Sv it => lift (Sv (sym_byte_of it (z3_of 256 (popi b))))
+        end
+    | SHL => lift (bv_lshl 256 (popi b) (popi a))
+    | SHR => lift (bv_lshr 256 (popi b) (popi a))
+    | SAR => lift (bv_ashr 256 (popi b) (popi a))
+    end.
+
+  (* ISZERO acts on state.top() WITHOUT coercion (a Bool-typed top takes the HalmosBool method);
+     NOT acts on state.topi(): the 256-bit word *)
+  Definition run1_ref (o : op1) (a : val) : res val :=
+    match o with
+    | ISZERO => match a with
+                | VBV x => Ok (VBool (bv_is_zero 256 x))
+                | VBool p => Ok (VBool (bl_is_zero p))
+                end
+    | NOT => Ok (VBV (bv_not 256 (popi a)))
+    end.
+
+  Definition run3_ref (o : op3) (a b c : val) : res val :=
+    match o with
+    | ADDMOD => liftr (bv_addmod 256 (Some Furem) (popi a) (popi b) (popi c))
+    | MULMOD => liftr (bv_mulmod 256 (Some Fmul) (Some Furem) (popi a) (popi b) (popi c))
+    end.
+
+  (* SEVM.arith: constraints appended to the path next to a symbolic DIV / MOD result *)
+  Definition arith_axioms_ref (o : op) (a b : val) : list bterm :=
+    match o with
+    | DIV => match bv_div 256 (Some Fudiv) (popi a) (popi b) with
+             | Ok (Sv t) => [BCmp Ule 256 t (z3_of 256 (popi a))]
+             | _ => []
+             end
+    | MOD => match bv_mod 256 (Some Furem) (popi a) (popi b) with
+             | Ok (Sv t) => [BCmp Ule 256 t (z3_of 256 (popi b))]
+             | _ => []
+             end
+    | _ => []
+    end.
+
+  (* what an instruction leaves behind: the stack and the path constraints *)
+  Definition obs (r : res st) : res (list val * list bterm) :=
+    match r with Ok s => Ok (stk s, pth s) | Err e => Err e end.
+  Definition obs_ref (r : res val) (rest : list val) (path : list bterm) : res (list val * list bterm) :=
+    match r with Ok v => Ok (v :: rest, path) | Err e => Err e end.
+
+  Lemma run2s_is_ref sebc o a b rest :
+    obs (run2s sebc o a b rest) = obs_ref (run2_ref sebc o a b) rest (arith_axioms_ref o a b).
+  Proof.
+    destruct o; try (destruct a as [x|p], b as [y|q]; reflexivity);
+      try (unfold run2s, run2_ref, arith_axioms_ref; destruct a as [x|p], b as [y|q];
+           cbn -[bv_div bv_mod bv_sdiv bv_exp popi];
+           match goal with |- context [liftr ?X] => destruct X as [[?|?]|?] end; reflexivity).
+    - (* SIGNEXTEND *)
+      destruct a as [[s|t]|[[|]|c]], b as [y|q]; reflexivity.
+    - (* BYTE *)
+      destruct a as [[s|t]|[[|]|c]], b as [y|q]; reflexivity.
+  Qed.
+
+  Lemma run1s_is_ref o a rest : obs (run1s o a rest) = obs_ref (run1_ref o a) rest [].
+  Proof. destruct o, a as [x|p]; reflexivity. Qed.
+
+  Lemma run3s_is_ref o a b c rest : obs (run3s o a b c rest) = obs_ref (run3_ref o a b c) rest [].
+  Proof.
+    destruct o; unfold run3s, run3_ref; destruct a as [x|p], b as [y|q], c as [z|r];
+      cbn -[bv_addmod bv_mulmod popi];
+      match goal with
+      | |- context [bv_addmod 256 (Some Furem) ?u ?w ?m] => destruct (bv_addmod 256 (Some Furem) u w m) as [v|e]
+      | |- context [bv_mulmod 256 (Some Fmul) (Some Furem) ?u ?w ?m] => destruct (bv_mulmod 256 (Some Fmul) (Some Furem) u w m) as [v|e]
+      end; reflexivity.
+  Qed.
+
+  Lemma only_obs r rest path v : obs r = obs_ref v rest path ->
+    rest = [] -> only r = v.
+  Proof.
+    intros H ->. destruct r as [s|e], v as [w|e']; cbn in *; try congruence.
+    injection H as H1 H2. rewrite H1. reflexivity.
+  Qed.
+
+  Lemma run2_is_ref sebc o a b : run2 sebc o a b = run2_ref sebc o a b.
+  Proof. apply (only_obs _ [] (arith_axioms_ref o a b)); [apply run2s_is_ref|reflexivity]. Qed.
+  Lemma run1_is_ref o a : run1 o a = run1_ref o a.
+  Proof. apply (only_obs _ [] []); [apply run1s_is_ref|reflexivity]. Qed.
+  Lemma run3_is_ref o a b c : run3 o a b c = run3_ref o a b c.
+  Proof. apply (only_obs _ [] []); [apply run3s_is_ref|reflexivity]. Qed.
+
+  Lemma arith_axioms_is_ref sebc o a b :
+    (exists r, run2_ref sebc o a b = Ok r) -> arith_axioms sebc o a b = arith_axioms_ref o a b.
+  Proof.
+    intros [r E]. unfold arith_axioms. pose proof (run2s_is_ref sebc o a b []) as H.
+    rewrite E in H. destruct (run2s sebc o a b []) as [s|e]; cbn in H; [|discriminate].
+    injection H as _ H2. exact H2.
+  Qed.
+
   (* ================================================================ dispatch layer *)
   Ltac side := first [lia | apply popi_wf; assumption | assumption].
 
+  Lemma run_add sebc a b : wf ev eb a -> wf ev eb b ->
+    exists r, run2_ref sebc ADD a b = Ok r /\ dn r = evm_add (dn a) (dn b).
+  Proof.
+    intros Ha Hb. eexists; split; [reflexivity|].
+    cbn [denote]. rewrite bv_add_den by (try apply popi_wf; auto; lia).
+    rewrite !popi_den. reflexivity.
+  Qed.
+
+  Lemma run_sub sebc a b : wf ev eb a -> wf ev eb b ->
+    exists r, run2_ref sebc SUB a b = Ok r /\ dn r = evm_sub (dn a) (dn b).
+  Proof.
+    intros Ha Hb. eexists; split; [reflexivity|].
+    cbn [denote]. rewrite bv_sub_den by (try apply popi_wf; auto; lia).
+    rewrite !popi_den. reflexivity.
+  Qed.
+
   Lemma run_mul sebc a b : wf ev eb a -> wf ev eb b ->
-    exists r, run2 sebc MUL a b = Ok r /\ dn r = evm_mul (dn a) (dn b).
+    exists r, run2_ref sebc MUL a b = Ok r /\ dn r = evm_mul (dn a) (dn b).
   Proof.
     intros Ha Hb. eexists; split; [reflexivity|]. cbn [denote].
-    rewrite bv_mul_den by side. rewrite !popi_den. reflexivity.
+    rewrite bv_mul_den by (side || (left; reflexivity)). rewrite !popi_den. reflexivity.
   Qed.
 
   Lemma run_div sebc a b : wf ev eb a -> wf ev eb b ->
-    exists r, run2 sebc DIV a b = Ok r /\ dn r = evm_div (dn a) (dn b).
+    exists r, run2_ref sebc DIV a b = Ok r /\ dn r = evm_div (dn a) (dn b).
   Proof.
-    intros Ha Hb. eexists; split; [reflexivity|]. cbn [denote].
-    rewrite bv_div_den by side. rewrite !popi_den. reflexivity.
+    intros Ha Hb. cbn [run2_ref].
+    destruct (bv_div_den 256 (popi a) (popi b)) as [r [E D]]; try side.
+    rewrite E. eexists; split; [reflexivity|]. cbn [denote]. rewrite D, !popi_den. reflexivity.
   Qed.
 
   Lemma run_mod sebc a b : wf ev eb a -> wf ev eb b ->
-    exists r, run2 sebc MOD a b = Ok r /\ dn r = evm_mod (dn a) (dn b).
+    exists r, run2_ref sebc MOD a b = Ok r /\ dn r = evm_mod (dn a) (dn b).
   Proof.
-    intros Ha Hb. eexists; split; [reflexivity|]. cbn [denote].
-    rewrite bv_mod_den by side. rewrite !popi_den. reflexivity.
+    intros Ha Hb. cbn [run2_ref].
+    destruct (bv_mod_den 256 (popi a) (popi b)) as [r [E D]]; try side.
+    rewrite E. eexists; split; [reflexivity|]. cbn [denote]. rewrite D, !popi_den. reflexivity.
   Qed.
 
   Lemma run_lt sebc a b : wf ev eb a -> wf ev eb b ->
-    exists r, run2 sebc LT a b = Ok r /\ dn r = evm_lt (dn a) (dn b).
+    exists r, run2_ref sebc LT a b = Ok r /\ dn r = evm_lt (dn a) (dn b).
   Proof.
     intros Ha Hb. eexists; split; [reflexivity|]. cbn [denote].
     rewrite bv_ult_den by side. rewrite !popi_den. reflexivity.
   Qed.
 
   Lemma run_gt sebc a b : wf ev eb a -> wf ev eb b ->
-    exists r, run2 sebc GT a b = Ok r /\ dn r = evm_gt (dn a) (dn b).
+    exists r, run2_ref sebc GT a b = Ok r /\ dn r = evm_gt (dn a) (dn b).
   Proof.
     intros Ha Hb. eexists; split; [reflexivity|]. cbn [denote].
     rewrite bv_ugt_den by side. rewrite !popi_den. reflexivity.
   Qed.
 
   Lemma run_slt sebc a b : wf ev eb a -> wf ev eb b ->
-    exists r, run2 sebc SLT a b = Ok r /\ dn r = evm_slt (dn a) (dn b).
+    exists r, run2_ref sebc SLT a b = Ok r /\ dn r = evm_slt (dn a) (dn b).
   Proof.
     intros Ha Hb. eexists; split; [reflexivity|]. cbn [denote].
     rewrite bv_slt_den by side. rewrite !popi_den. reflexivity.
   Qed.
 
   Lemma run_sgt sebc a b : wf ev eb a -> wf ev eb b ->
-    exists r, run2 sebc SGT a b = Ok r /\ dn r = evm_sgt (dn a) (dn b).
+    exists r, run2_ref sebc SGT a b = Ok r /\ dn r = evm_sgt (dn a) (dn b).
   Proof.
     intros Ha Hb. eexists; split; [reflexivity|]. cbn [denote].
     rewrite bv_sgt_den by side. rewrite !popi_den. reflexivity.
   Qed.
 
   Lemma run_eq sebc a b : wf ev eb a -> wf ev eb b ->
-    exists r, run2 sebc EQ a b = Ok r /\ dn r = evm_eq (dn a) (dn b).
+    exists r, run2_ref sebc EQ a b = Ok r /\ dn r = evm_eq (dn a) (dn b).
   Proof.
     intros Ha Hb. unfold evm_eq.
     destruct a as [x|p], b as [y|q]; (eexists; split; [reflexivity|]).
@@ -640,7 +800,7 @@ Section WithEnv.
   Qed.
 
   Lemma run_iszero a : wf ev eb a ->
-    exists r, run1 ISZERO a = Ok r /\ dn r = evm_iszero (dn a).
+    exists r, run1_ref ISZERO a = Ok r /\ dn r = evm_iszero (dn a).
   Proof.
     intros Ha. destruct a as [x|p]; (eexists; split; [reflexivity|]); cbn [denote].
     - rewrite bv_is_zero_den by lia. reflexivity.
@@ -652,10 +812,10 @@ Section WithEnv.
     (forall p q, bden (f p q) = F (bden p) (bden q)) ->
     (forall x y, wfn 256 x -> wfn 256 y -> den (g 256 x y) = G (den x) (den y)) ->
     (forall p q, b2w (F p q) = G (b2w p) (b2w q)) ->
-    dn (bitwise f g a b) = G (dn a) (dn b).
+    dn (bitwise_ref f g a b) = G (dn a) (dn b).
   Proof.
     intros Ha Hb Hf Hg HFG.
-    destruct a as [x|p], b as [y|q]; cbn [bitwise denote].
+    destruct a as [x|p], b as [y|q]; cbn [bitwise_ref denote].
     - apply Hg; assumption.
     - unfold to_bv256. rewrite Hg by side. rewrite !popi_den. reflexivity.
     - unfold to_bv256. rewrite Hg by side. rewrite !popi_den. reflexivity.
@@ -663,7 +823,7 @@ Section WithEnv.
   Qed.
 
   Lemma run_and sebc a b : wf ev eb a -> wf ev eb b ->
-    exists r, run2 sebc AND a b = Ok r /\ dn r = evm_and (dn a) (dn b).
+    exists r, run2_ref sebc AND a b = Ok r /\ dn r = evm_and (dn a) (dn b).
   Proof.
     intros Ha Hb. eexists; split; [reflexivity|].
     apply (bitwise_den bl_and bv_and andb Z.land); auto using bl_and_den.
@@ -672,7 +832,7 @@ Section WithEnv.
   Qed.
 
   Lemma run_or sebc a b : wf ev eb a -> wf ev eb b ->
-    exists r, run2 sebc OR a b = Ok r /\ dn r = evm_or (dn a) (dn b).
+    exists r, run2_ref sebc OR a b = Ok r /\ dn r = evm_or (dn a) (dn b).
   Proof.
     intros Ha Hb. eexists; split; [reflexivity|].
     apply (bitwise_den bl_or bv_or orb Z.lor); auto using bl_or_den.
@@ -681,35 +841,35 @@ Section WithEnv.
   Qed.
 
   Lemma run_xor sebc a b : wf ev eb a -> wf ev eb b ->
-    exists r, run2 sebc XOR a b = Ok r /\ dn r = evm_xor (dn a) (dn b).
+    exists r, run2_ref sebc XOR a b = Ok r /\ dn r = evm_xor (dn a) (dn b).
   Proof.
     intros Ha Hb. eexists; split; [reflexivity|]. cbn [denote].
     rewrite bv_xor_den by side. rewrite !popi_den. reflexivity.
   Qed.
 
-  Lemma run_not_bv x : wfn 256 x ->
-    exists r, run1 NOT (VBV x) = Ok r /\ dn r = evm_not (den x).
+  Lemma run_not a : wf ev eb a ->
+    exists r, run1_ref NOT a = Ok r /\ dn r = evm_not (dn a).
   Proof.
-    intros Hx. eexists; split; [reflexivity|]. cbn [denote].
-    rewrite bv_not_den by side. reflexivity.
+    intros Ha. eexists; split; [reflexivity|]. cbn [denote].
+    rewrite bv_not_den by side. rewrite popi_den. reflexivity.
   Qed.
 
   Lemma run_shl sebc a b : wf ev eb a -> wf ev eb b ->
-    exists r, run2 sebc SHL a b = Ok r /\ dn r = evm_shl (dn a) (dn b).
+    exists r, run2_ref sebc SHL a b = Ok r /\ dn r = evm_shl (dn a) (dn b).
   Proof.
     intros Ha Hb. eexists; split; [reflexivity|]. cbn [denote].
     rewrite bv_lshl_den by side. rewrite !popi_den. reflexivity.
   Qed.
 
   Lemma run_shr sebc a b : wf ev eb a -> wf ev eb b ->
-    exists r, run2 sebc SHR a b = Ok r /\ dn r = evm_shr (dn a) (dn b).
+    exists r, run2_ref sebc SHR a b = Ok r /\ dn r = evm_shr (dn a) (dn b).
   Proof.
     intros Ha Hb. eexists; split; [reflexivity|]. cbn [denote].
     rewrite bv_lshr_den by side. rewrite !popi_den. reflexivity.
   Qed.
 
   Lemma run_sar sebc a b : wf ev eb a -> wf ev eb b ->
-    exists r, run2 sebc SAR a b = Ok r /\ dn r = evm_sar (dn a) (dn b).
+    exists r, run2_ref sebc SAR a b = Ok r /\ dn r = evm_sar (dn a) (dn b).
   Proof.
     intros Ha Hb. eexists; split; [reflexivity|]. cbn [denote].
     rewrite bv_ashr_den by side. rewrite !popi_den.
@@ -717,9 +877,9 @@ Section WithEnv.
   Qed.
 
   Lemma run_byte sebc a b : wf ev eb a -> wf ev eb b ->
-    exists r, run2 sebc BYTE a b = Ok r /\ dn r = evm_byte (dn a) (dn b).
+    exists r, run2_ref sebc BYTE a b = Ok r /\ dn r = evm_byte (dn a) (dn b).
   Proof.
-    intros Ha Hb. cbn [run2].
+    intros Ha Hb. cbn [run2_ref].
     pose proof (popi_wf a Ha) as Hwa. pose proof (popi_den a) as Hda.
     destruct (popi a) as [idx|it] eqn:E; (eexists; split; [reflexivity|]); cbn [denote].
     - unfold bvwf in Hwa. cbn [bv_den] in *. rewrite bv_byte256_den by side.
@@ -729,9 +889,9 @@ Section WithEnv.
   Qed.
 
   Lemma run_signextend sebc a b s : wf ev eb a -> wf ev eb b -> popi a = Cv s ->
-    exists r, run2 sebc SIGNEXTEND a b = Ok r /\ dn r = evm_signextend (dn a) (dn b).
+    exists r, run2_ref sebc SIGNEXTEND a b = Ok r /\ dn r = evm_signextend (dn a) (dn b).
   Proof.
-    intros Ha Hb E. cbn [run2]. rewrite E.
+    intros Ha Hb E. cbn [run2_ref]. rewrite E.
     pose proof (popi_wf a Ha) as Hwa. pose proof (popi_den a) as Hda. rewrite E in *.
     unfold bvwf in Hwa. cbn [bv_den] in *.
     eexists; split; [reflexivity|]. cbn [denote].
@@ -739,8 +899,8 @@ Section WithEnv.
   Qed.
 
   Lemma run_signextend_symbolic sebc a b t : popi a = Sv t ->
-    run2 sebc SIGNEXTEND a b = Err ENotConcrete.
-  Proof. intros E. cbn [run2]. rewrite E. reflexivity. Qed.
+    run2_ref sebc SIGNEXTEND a b = Err ENotConcrete.
+  Proof. intros E. cbn [run2_ref]. rewrite E. reflexivity. Qed.
 
 
   (* ================================================================ signed division *)
@@ -818,7 +978,7 @@ Section WithEnv.
   Qed.
 
   Lemma bv_sdiv_den n a b : 1 < n -> wfn n a -> wfn n b ->
-    exists r, bv_sdiv n true a b = Ok r /\
+    exists r, bv_sdiv n (Some Fsdiv) a b = Ok r /\
       den r = if den b =? 0 then 0 else (Z.quot (bvsigned n (den a)) (bvsigned n (den b))) mod 2 ^ n.
   Proof.
     intros Hn Ha Hb. pose proof (pow2_pos n ltac:(lia)) as HP. unfold bvwf in *.
@@ -838,7 +998,7 @@ Section WithEnv.
   Qed.
 
   Lemma bv_smod_den n a b : 1 < n -> wfn n a -> wfn n b ->
-    den (bv_smod n true a b) =
+    den (bv_smod n (Some Fsrem) a b) =
       if den b =? 0 then 0 else (Z.rem (bvsigned n (den a)) (bvsigned n (den b))) mod 2 ^ n.
   Proof.
     intros Hn Ha Hb. pose proof (pow2_pos n ltac:(lia)) as HP. unfold bvwf in *.
@@ -858,15 +1018,15 @@ Section WithEnv.
   Qed.
 
   Lemma run_sdiv sebc a b : wf ev eb a -> wf ev eb b ->
-    exists r, run2 sebc SDIV a b = Ok r /\ dn r = evm_sdiv (dn a) (dn b).
+    exists r, run2_ref sebc SDIV a b = Ok r /\ dn r = evm_sdiv (dn a) (dn b).
   Proof.
-    intros Ha Hb. cbn [run2].
+    intros Ha Hb. cbn [run2_ref].
     destruct (bv_sdiv_den 256 (popi a) (popi b)) as [r [E D]]; try side.
     rewrite E. eexists; split; [reflexivity|]. cbn [denote]. rewrite D, !popi_den. reflexivity.
   Qed.
 
   Lemma run_smod sebc a b : wf ev eb a -> wf ev eb b ->
-    exists r, run2 sebc SMOD a b = Ok r /\ dn r = evm_smod (dn a) (dn b).
+    exists r, run2_ref sebc SMOD a b = Ok r /\ dn r = evm_smod (dn a) (dn b).
   Proof.
     intros Ha Hb. eexists; split; [reflexivity|]. cbn [denote].
     rewrite bv_smod_den by side. rewrite !popi_den. reflexivity.
@@ -899,10 +1059,10 @@ Section WithEnv.
   Lemma evm_exp_math_eq a e : 0 <= e -> evm_exp a e = evm_exp_math a e.
   Proof. intros; unfold evm_exp, evm_exp_math. apply modpow_spec; [reflexivity|assumption]. Qed.
 
-  Lemma exp_loop_den n mabs self k : 0 < n -> wfn n self -> forall acc, wfn n acc ->
+  Lemma exp_loop_den n mabs self k : abs_is Fmul mabs -> 0 < n -> wfn n self -> forall acc, wfn n acc ->
     den (exp_loop n mabs self acc k) = (den self ^ Z.of_nat k * den acc) mod 2 ^ n.
   Proof.
-    intros Hn Hs. pose proof (pow2_pos n ltac:(lia)) as HP.
+    intros Habs Hn Hs. pose proof (pow2_pos n ltac:(lia)) as HP.
     induction k as [|k IH]; intros acc Hacc; cbn [exp_loop].
     - rewrite Z.pow_0_r, Z.mul_1_l. unfold bvwf in Hacc. symmetry; apply Z.mod_small; assumption.
     - rewrite IH by (apply bv_mul_wf; assumption).
@@ -910,15 +1070,39 @@ Section WithEnv.
       rewrite Nat2Z.inj_succ, Z.pow_succ_r by lia. f_equal; ring.
   Qed.
 
+  Lemma py_pow3_loop_spec p : forall base acc m, 0 < m ->
+    py_pow3_loop base acc p m = (acc * base ^ Z.pos p) mod m.
+  Proof.
+    induction p as [q IH|q IH|]; intros base acc m Hm; cbn [py_pow3_loop].
+    - rewrite IH by assumption.
+      replace (acc * base ^ Z.pos q~1) with ((acc * base) * (base * base) ^ Z.pos q).
+      + apply mul_mod_congr; [assumption|apply Z.mod_mod; lia|].
+        symmetry. apply Zpow_facts.Zpower_mod. lia.
+      + rewrite Pos2Z.inj_xI, Z.pow_add_r, Z.pow_1_r, Z.pow_mul_r, Z.pow_2_r by lia. ring.
+    - rewrite IH by assumption.
+      replace (acc * base ^ Z.pos q~0) with (acc * (base * base) ^ Z.pos q).
+      + apply mul_mod_congr; [assumption|reflexivity|].
+        symmetry. apply Zpow_facts.Zpower_mod. lia.
+      + rewrite Pos2Z.inj_xO, Z.pow_mul_r, Z.pow_2_r by lia. reflexivity.
+    - rewrite Z.pow_1_r. reflexivity.
+  Qed.
+
+  Lemma py_pow3_spec a e m : 0 < m -> 0 <= e -> py_pow3 a e m = (a ^ e) mod m.
+  Proof.
+    intros Hm He. destruct e as [|p|p]; cbn [py_pow3]; [reflexivity| |lia].
+    rewrite py_pow3_loop_spec by assumption. rewrite Z.mul_1_l.
+    symmetry. apply Zpow_facts.Zpower_mod. lia.
+  Qed.
+
   Lemma exp_concrete_path n e m s x y : y <> 0 -> y <> 1 ->
-    bv_exp n e m s (Cv x) (Cv y) = Ok (mk_int n (x ^ y)).
+    bv_exp n e m s (Cv x) (Cv y) = Ok (mk_int n (r_exp_1 x y n)).
   Proof.
     intros H0 H1. unfold bv_exp, g_exp_1, g_exp_2.
     destruct (Z.eqb_spec y 0); [contradiction|]. destruct (Z.eqb_spec y 1); [contradiction|]. reflexivity.
   Qed.
 
   Lemma bv_exp_den n sebc a b : 0 < n -> wfn n a -> wfn n b ->
-    exists r, bv_exp n true true sebc a b = Ok r /\ den r = (den a ^ den b) mod 2 ^ n.
+    exists r, bv_exp n (Some Fexp) (Some Fmul) sebc a b = Ok r /\ den r = (den a ^ den b) mod 2 ^ n.
   Proof.
     intros Hn Ha Hb. pose proof (pow2_pos n ltac:(lia)) as HP. unfold bvwf in *.
     assert (Hslow : den (Sv (TUF Fexp n (z3_of n a) (z3_of n b))) = (den a ^ den b) mod 2 ^ n).
@@ -930,17 +1114,21 @@ Section WithEnv.
     destruct (Z.eqb_spec y 1) as [->|Hy1].
     { eexists; split; [reflexivity|]. rewrite Z.pow_1_r. symmetry; apply Z.mod_small; assumption. }
     destruct a as [x|t].
-    - eexists; split; [reflexivity|]. apply mk_int_den; lia.
+    - unfold rd_exp_1, r_exp_1. rewrite py_arith_ok by reflexivity.
+      eexists; split; [reflexivity|]. rewrite mk_int_den by lia.
+      (* the VALUE is right for pow(lhs, rhs, 1 << size) and for the unreduced lhs ** rhs alike; what
+         separates them is the work measure (exp_prompt below) *)
+      rewrite ?Z.shiftl_1_l, ?py_pow3_spec by lia. cbn [bv_den]. rewrite ?Z.mod_mod by lia. reflexivity.
     - destruct (g_exp_3 y sebc); (eexists; split; [reflexivity|]); [|exact Hslow].
-      rewrite exp_loop_den by assumption. rewrite Z2Nat.id by lia.
+      rewrite exp_loop_den by (assumption || (left; reflexivity)). rewrite Z2Nat.id by lia.
       replace (den (Sv t) ^ (y - 1) * den (Sv t)) with (den (Sv t) ^ y); [reflexivity|].
       replace y with (Z.succ (y - 1)) at 1 by lia. rewrite Z.pow_succ_r by lia. ring.
   Qed.
 
   Lemma run_exp sebc a b : wf ev eb a -> wf ev eb b ->
-    exists r, run2 sebc EXP a b = Ok r /\ dn r = evm_exp (dn a) (dn b).
+    exists r, run2_ref sebc EXP a b = Ok r /\ dn r = evm_exp (dn a) (dn b).
   Proof.
-    intros Ha Hb. cbn [run2].
+    intros Ha Hb. cbn [run2_ref].
     destruct (bv_exp_den 256 sebc (popi a) (popi b)) as [r [E D]]; try side.
     rewrite E. eexists; split; [reflexivity|]. cbn [denote]. rewrite D, !popi_den.
     unfold evm_exp. symmetry. apply modpow_spec; [reflexivity|].
@@ -954,18 +1142,15 @@ Section WithEnv.
     unfold bvwf in Ha. assert (2 ^ n <= 2 ^ n2) by (apply Z.pow_le_mono_r; lia). lia.
   Qed.
 
-  Definition all_con_zero (a b m : bv) : bool :=
-    match a, b, m with Cv _, Cv _, Cv z => z =? 0 | _, _, _ => false end.
-
   Lemma bv_addmod_den n a b m : 0 < n -> wfn n a -> wfn n b -> wfn n m ->
-    all_con_zero a b m = false ->
-    exists r, bv_addmod n true a b m = Ok r /\
+    exists r, bv_addmod n (Some Furem) a b m = Ok r /\
       den r = if den m =? 0 then 0 else (den a + den b) mod den m.
   Proof.
-    intros Hn Ha Hb Hm Hz. pose proof (pow2_pos n ltac:(lia)) as HP.
-    assert (Hgen : den (bv_resize (n + 8) n
-              (bv_mod (n + 8) true (bv_add (n + 8) (bv_resize n (n + 8) a) (bv_resize n (n + 8) b))
-                 (bv_resize n (n + 8) m))) = if den m =? 0 then 0 else (den a + den b) mod den m).
+    intros Hn Ha Hb Hm. pose proof (pow2_pos n ltac:(lia)) as HP.
+    assert (Hgen : exists r,
+              bind_bv (bv_mod (n + 8) (Some Furem) (bv_add (n + 8) (bv_resize n (n + 8) a) (bv_resize n (n + 8) b))
+                         (bv_resize n (n + 8) m)) (bv_resize (n + 8) n) = Ok r /\
+              den r = if den m =? 0 then 0 else (den a + den b) mod den m).
     { pose proof (resize_up_wf n (n + 8) a ltac:(lia) ltac:(lia) Ha) as Wa.
       pose proof (resize_up_wf n (n + 8) b ltac:(lia) ltac:(lia) Hb) as Wb.
       pose proof (resize_up_wf n (n + 8) m ltac:(lia) ltac:(lia) Hm) as Wm.
@@ -975,96 +1160,91 @@ Section WithEnv.
       assert (D1 : den (bv_add (n + 8) (bv_resize n (n + 8) a) (bv_resize n (n + 8) b)) = den a + den b).
       { rewrite bv_add_den by (assumption || lia). rewrite !resize_up_den by (assumption || lia).
         unfold bvwf in Ha, Hb. apply Z.mod_small. lia. }
-      assert (D2 : den (bv_mod (n + 8) true (bv_add (n + 8) (bv_resize n (n + 8) a) (bv_resize n (n + 8) b))
-                 (bv_resize n (n + 8) m)) = if den m =? 0 then 0 else (den a + den b) mod den m).
-      { rewrite bv_mod_den by (assumption || lia). rewrite D1, resize_up_den by (assumption || lia). reflexivity. }
+      destruct (bv_mod_den (n + 8) (bv_add (n + 8) (bv_resize n (n + 8) a) (bv_resize n (n + 8) b))
+                  (bv_resize n (n + 8) m)) as [r2 [E2 D2]]; try (assumption || lia).
+      rewrite E2. cbn [bind_bv]. eexists; split; [reflexivity|].
+      rewrite D1, resize_up_den in D2 by (assumption || lia).
       rewrite resize_down_den; [exact D2|lia|lia|].
       rewrite D2. unfold bvwf in Hm. destruct (Z.eqb_spec (den m) 0); [lia|].
       pose proof (Z.mod_pos_bound (den a + den b) (den m) ltac:(lia)). lia. }
-    destruct a as [x|t], b as [y|u], m as [z|v];
-      try (eexists; split; [reflexivity|exact Hgen]).
-    cbn [all_con_zero] in Hz. cbn [bv_addmod]. rewrite Hz.
-    eexists; split; [reflexivity|]. unfold bvwf in *; cbn [bv_den] in *. rewrite Hz.
-    rewrite mk_int_den by lia. apply Z.mod_small.
-    pose proof (Z.mod_pos_bound (x + y) z ltac:(lia)). lia.
+    destruct a as [x|t], b as [y|u], m as [z|v]; try exact Hgen.
+    clear Hgen. cbn [bv_addmod]. unfold g_addmod_1. unfold bvwf in *; cbn [bv_den] in *.
+    destruct (Z.eqb_spec z 0) as [->|Hz].
+    - eexists; split; [reflexivity|]. rewrite mk_int_den by lia. apply Z.mod_0_l; lia.
+    - unfold rd_addmod_1, r_addmod_1.
+      rewrite py_arith_ok by (cbn [existsb]; destruct (Z.eqb_spec 0 z); [lia|reflexivity]).
+      eexists; split; [reflexivity|]. rewrite mk_int_den by lia. apply Z.mod_small.
+      pose proof (Z.mod_pos_bound (x + y) z ltac:(lia)). lia.
   Qed.
 
   Lemma bv_mulmod_den n a b m : 0 < n -> wfn n a -> wfn n b -> wfn n m ->
-    all_con_zero a b m = false ->
-    exists r, bv_mulmod n true true a b m = Ok r /\
+    exists r, bv_mulmod n (Some Fmul) (Some Furem) a b m = Ok r /\
       den r = if den m =? 0 then 0 else (den a * den b) mod den m.
   Proof.
-    intros Hn Ha Hb Hm Hz. pose proof (pow2_pos n ltac:(lia)) as HP.
-    assert (Hgen : den (bv_resize (n * 2) n
-              (bv_mod (n * 2) true (bv_mul (n * 2) true (bv_resize n (n * 2) a) (bv_resize n (n * 2) b))
-                 (bv_resize n (n * 2) m))) = if den m =? 0 then 0 else (den a * den b) mod den m).
+    intros Hn Ha Hb Hm. pose proof (pow2_pos n ltac:(lia)) as HP.
+    assert (Hgen : exists r,
+              bind_bv (bv_mod (n * 2) (Some Furem) (bv_mul (n * 2) (Some Fmul) (bv_resize n (n * 2) a) (bv_resize n (n * 2) b))
+                         (bv_resize n (n * 2) m)) (bv_resize (n * 2) n) = Ok r /\
+              den r = if den m =? 0 then 0 else (den a * den b) mod den m).
     { pose proof (resize_up_wf n (n * 2) a ltac:(lia) ltac:(lia) Ha) as Wa.
       pose proof (resize_up_wf n (n * 2) b ltac:(lia) ltac:(lia) Hb) as Wb.
       pose proof (resize_up_wf n (n * 2) m ltac:(lia) ltac:(lia) Hm) as Wm.
       assert (H2 : 2 ^ (n * 2) = 2 ^ n * 2 ^ n).
       { replace (n * 2) with (n + n) by lia. apply Z.pow_add_r; lia. }
-      assert (W1 : wfn (n * 2) (bv_mul (n * 2) true (bv_resize n (n * 2) a) (bv_resize n (n * 2) b))).
-      { apply bv_mul_wf; (assumption || lia). }
-      assert (D1 : den (bv_mul (n * 2) true (bv_resize n (n * 2) a) (bv_resize n (n * 2) b)) = den a * den b).
-      { rewrite bv_mul_den by (assumption || lia). rewrite !resize_up_den by (assumption || lia).
+      assert (W1 : wfn (n * 2) (bv_mul (n * 2) (Some Fmul) (bv_resize n (n * 2) a) (bv_resize n (n * 2) b))).
+      { apply bv_mul_wf; (assumption || lia || (left; reflexivity)). }
+      assert (D1 : den (bv_mul (n * 2) (Some Fmul) (bv_resize n (n * 2) a) (bv_resize n (n * 2) b)) = den a * den b).
+      { rewrite bv_mul_den by (assumption || lia || (left; reflexivity)). rewrite !resize_up_den by (assumption || lia).
         unfold bvwf in Ha, Hb. apply Z.mod_small. rewrite H2. nia. }
-      assert (D2 : den (bv_mod (n * 2) true (bv_mul (n * 2) true (bv_resize n (n * 2) a) (bv_resize n (n * 2) b))
-                 (bv_resize n (n * 2) m)) = if den m =? 0 then 0 else (den a * den b) mod den m).
-      { rewrite bv_mod_den by (assumption || lia). rewrite D1, resize_up_den by (assumption || lia). reflexivity. }
+      destruct (bv_mod_den (n * 2) (bv_mul (n * 2) (Some Fmul) (bv_resize n (n * 2) a) (bv_resize n (n * 2) b))
+                  (bv_resize n (n * 2) m)) as [r2 [E2 D2]]; try (assumption || lia).
+      rewrite E2. cbn [bind_bv]. eexists; split; [reflexivity|].
+      rewrite D1, resize_up_den in D2 by (assumption || lia).
       rewrite resize_down_den; [exact D2|lia|lia|].
       rewrite D2. unfold bvwf in Hm. destruct (Z.eqb_spec (den m) 0); [lia|].
       pose proof (Z.mod_pos_bound (den a * den b) (den m) ltac:(lia)). lia. }
-    destruct a as [x|t], b as [y|u], m as [z|v];
-      try (eexists; split; [reflexivity|exact Hgen]).
-    cbn [all_con_zero] in Hz. cbn [bv_mulmod]. rewrite Hz.
-    eexists; split; [reflexivity|]. unfold bvwf in *; cbn [bv_den] in *. rewrite Hz.
-    rewrite mk_int_den by lia. apply Z.mod_small.
-    pose proof (Z.mod_pos_bound (x * y) z ltac:(lia)). lia.
+    destruct a as [x|t], b as [y|u], m as [z|v]; try exact Hgen.
+    clear Hgen. cbn [bv_mulmod]. unfold g_mulmod_1. unfold bvwf in *; cbn [bv_den] in *.
+    destruct (Z.eqb_spec z 0) as [->|Hz].
+    - eexists; split; [reflexivity|]. rewrite mk_int_den by lia. apply Z.mod_0_l; lia.
+    - unfold rd_mulmod_1, r_mulmod_1.
+      rewrite py_arith_ok by (cbn [existsb]; destruct (Z.eqb_spec 0 z); [lia|reflexivity]).
+      eexists; split; [reflexivity|]. rewrite mk_int_den by lia. apply Z.mod_small.
+      pose proof (Z.mod_pos_bound (x * y) z ltac:(lia)). lia.
   Qed.
 
   Lemma run_addmod a b c : wf ev eb a -> wf ev eb b -> wf ev eb c ->
-    all_con_zero (popi a) (popi b) (popi c) = false ->
-    exists r, run3 ADDMOD a b c = Ok r /\ dn r = evm_addmod (dn a) (dn b) (dn c).
+    exists r, run3_ref ADDMOD a b c = Ok r /\ dn r = evm_addmod (dn a) (dn b) (dn c).
   Proof.
-    intros Ha Hb Hc Hz. cbn [run3].
+    intros Ha Hb Hc. cbn [run3_ref].
     destruct (bv_addmod_den 256 (popi a) (popi b) (popi c)) as [r [E D]]; try side.
     rewrite E. eexists; split; [reflexivity|]. cbn [denote]. rewrite D, !popi_den. reflexivity.
   Qed.
 
   Lemma run_mulmod a b c : wf ev eb a -> wf ev eb b -> wf ev eb c ->
-    all_con_zero (popi a) (popi b) (popi c) = false ->
-    exists r, run3 MULMOD a b c = Ok r /\ dn r = evm_mulmod (dn a) (dn b) (dn c).
+    exists r, run3_ref MULMOD a b c = Ok r /\ dn r = evm_mulmod (dn a) (dn b) (dn c).
   Proof.
-    intros Ha Hb Hc Hz. cbn [run3].
+    intros Ha Hb Hc. cbn [run3_ref].
     destruct (bv_mulmod_den 256 (popi a) (popi b) (popi c)) as [r [E D]]; try side.
     rewrite E. eexists; split; [reflexivity|]. cbn [denote]. rewrite D, !popi_den. reflexivity.
   Qed.
 
-  Lemma run_modzero_crash o a b c : all_con_zero (popi a) (popi b) (popi c) = true ->
-    run3 o a b c = Err EZeroDivision.
-  Proof.
-    intros Hz. unfold all_con_zero in Hz.
-    destruct (popi a) as [x|] eqn:Ea; [|discriminate]. destruct (popi b) as [y|] eqn:Eb; [|discriminate].
-    destruct (popi c) as [z|] eqn:Ec; [|discriminate].
-    destruct o; cbn [run3]; rewrite Ea, Eb, Ec; cbn [bv_addmod bv_mulmod]; rewrite Hz; reflexivity.
-  Qed.
-
   (* ================================================================ SEVM.arith path constraints *)
   Lemma arith_axioms_valid o a b c : wf ev eb a -> wf ev eb b ->
-    In c (arith_axioms o a b) -> beval ev eb c = true.
+    In c (arith_axioms_ref o a b) -> beval ev eb c = true.
   Proof.
     intros Ha Hb Hin.
     pose proof (popi_wf a Ha) as Wa. pose proof (popi_wf b Hb) as Wb.
-    destruct o; cbn [arith_axioms] in Hin; try contradiction.
-    - pose proof (bv_div_den 256 (popi a) (popi b) ltac:(lia) Wa Wb) as D.
-      destruct (bv_div 256 true (popi a) (popi b)) as [v|t]; [contradiction|].
+    destruct o; cbn [arith_axioms_ref] in Hin; try contradiction.
+    - destruct (bv_div_den 256 (popi a) (popi b) ltac:(lia) Wa Wb) as [r [E D]].
+      rewrite E in Hin. destruct r as [v|t]; [contradiction|].
       destruct Hin as [<-|[]].
       change (bvule (eval ev eb t) (eval ev eb (z3_of 256 (popi a))) = true).
       rewrite z3_of_den by assumption. cbn [bv_den] in D. rewrite D. unfold bvule. apply Z.leb_le.
       unfold bvwf in Wa, Wb. destruct (Z.eqb_spec (den (popi b)) 0); [lia|].
       pose proof (div_range (den (popi a)) (den (popi b)) (den (popi a) + 1) ltac:(lia) ltac:(lia)). lia.
-    - pose proof (bv_mod_den 256 (popi a) (popi b) ltac:(lia) Wa Wb) as D.
-      destruct (bv_mod 256 true (popi a) (popi b)) as [v|t]; [contradiction|].
+    - destruct (bv_mod_den 256 (popi a) (popi b) ltac:(lia) Wa Wb) as [r [E D]].
+      rewrite E in Hin. destruct r as [v|t]; [contradiction|].
       destruct Hin as [<-|[]].
       change (bvule (eval ev eb t) (eval ev eb (z3_of 256 (popi b))) = true).
       rewrite z3_of_den by assumption. cbn [bv_den] in D. rewrite D. unfold bvule. apply Z.leb_le.
@@ -1088,7 +1268,7 @@ Section WithEnv.
     destruct L as [r' [E' D]]; rewrite E' in E; injection E as <-; exact D.
 
   Lemma run2_spec sebc o a b r : wf ev eb a -> wf ev eb b ->
-    run2 sebc o a b = Ok r -> dn r = spec2 o (dn a) (dn b).
+    run2_ref sebc o a b = Ok r -> dn r = spec2 o (dn a) (dn b).
   Proof.
     intros Ha Hb E. destruct o; cbn [spec2].
     - use_run (run_add sebc a b Ha Hb) E.
@@ -1118,12 +1298,12 @@ Section WithEnv.
 
   Lemma run2_total sebc o a b : wf ev eb a -> wf ev eb b ->
     (o = SIGNEXTEND -> exists s, popi a = Cv s) ->
-    exists r, run2 sebc o a b = Ok r.
+    exists r, run2_ref sebc o a b = Ok r.
   Proof.
     intros Ha Hb Hs.
     destruct o;
       try (match goal with
-           | |- exists r, run2 _ ?o _ _ = _ => idtac
+           | |- exists r, run2_ref _ ?o _ _ = _ => idtac
            end).
     - destruct (run_add sebc a b Ha Hb) as [r [E _]]; eauto.
     - destruct (run_mul sebc a b Ha Hb) as [r [E _]]; eauto.
@@ -1153,7 +1333,7 @@ Section WithEnv.
   Lemma run2_fast_agree sebc o a b a' b' r r' :
     wf ev eb a -> wf ev eb b -> wf ev eb a' -> wf ev eb b' ->
     dn a = dn a' -> dn b = dn b' ->
-    run2 sebc o a b = Ok r -> run2 sebc o a' b' = Ok r' -> dn r = dn r'.
+    run2_ref sebc o a b = Ok r -> run2_ref sebc o a' b' = Ok r' -> dn r = dn r'.
   Proof.
     intros Ha Hb Ha' Hb' Ea Eb E E'.
     rewrite (run2_spec sebc o a b r Ha Hb E), (run2_spec sebc o a' b' r' Ha' Hb' E'), Ea, Eb. reflexivity.
@@ -1162,100 +1342,87 @@ Section WithEnv.
   Lemma run3_fast_agree o a b c a' b' c' r r' :
     wf ev eb a -> wf ev eb b -> wf ev eb c -> wf ev eb a' -> wf ev eb b' -> wf ev eb c' ->
     dn a = dn a' -> dn b = dn b' -> dn c = dn c' ->
-    run3 o a b c = Ok r -> run3 o a' b' c' = Ok r' -> dn r = dn r'.
+    run3_ref o a b c = Ok r -> run3_ref o a' b' c' = Ok r' -> dn r = dn r'.
   Proof.
     intros Ha Hb Hc Ha' Hb' Hc' Ea Eb Ec E E'.
-    assert (Z1 : all_con_zero (popi a) (popi b) (popi c) = false).
-    { destruct (all_con_zero (popi a) (popi b) (popi c)) eqn:Z; [|reflexivity].
-      rewrite (run_modzero_crash o a b c Z) in E. discriminate. }
-    assert (Z2 : all_con_zero (popi a') (popi b') (popi c') = false).
-    { destruct (all_con_zero (popi a') (popi b') (popi c')) eqn:Z; [|reflexivity].
-      rewrite (run_modzero_crash o a' b' c' Z) in E'. discriminate. }
     destruct o.
-    - destruct (run_addmod a b c Ha Hb Hc Z1) as [s [F D]]. rewrite F in E; injection E as <-.
-      destruct (run_addmod a' b' c' Ha' Hb' Hc' Z2) as [s' [F' D']]. rewrite F' in E'; injection E' as <-.
+    - destruct (run_addmod a b c Ha Hb Hc) as [s [F D]]. rewrite F in E; injection E as <-.
+      destruct (run_addmod a' b' c' Ha' Hb' Hc') as [s' [F' D']]. rewrite F' in E'; injection E' as <-.
       rewrite D, D', Ea, Eb, Ec. reflexivity.
-    - destruct (run_mulmod a b c Ha Hb Hc Z1) as [s [F D]]. rewrite F in E; injection E as <-.
-      destruct (run_mulmod a' b' c' Ha' Hb' Hc' Z2) as [s' [F' D']]. rewrite F' in E'; injection E' as <-.
+    - destruct (run_mulmod a b c Ha Hb Hc) as [s [F D]]. rewrite F in E; injection E as <-.
+      destruct (run_mulmod a' b' c' Ha' Hb' Hc') as [s' [F' D']]. rewrite F' in E'; injection E' as <-.
       rewrite D, D', Ea, Eb, Ec. reflexivity.
+  Qed.
+
+  Lemma run3_total o a b c : wf ev eb a -> wf ev eb b -> wf ev eb c ->
+    exists r, run3_ref o a b c = Ok r.
+  Proof.
+    intros Ha Hb Hc. destruct o.
+    - destruct (run_addmod a b c Ha Hb Hc) as [r [E _]]; eauto.
+    - destruct (run_mulmod a b c Ha Hb Hc) as [r [E _]]; eauto.
   Qed.
 
 End WithEnv.
 
-(* ================================================================ defects of the current tree *)
-
-(* F1: NOT on a Bool-typed stack top is logical negation *)
-Lemma not_bool_wrong : forall ev eb p,
-  run1 NOT (VBool p) = Ok (VBool (bl_not p)) /\
-  denote ev eb (VBool (bl_not p)) = b2w (negb (bl_den ev eb p)) /\
-  evm_not (denote ev eb (VBool p)) = W - 1 - b2w (bl_den ev eb p).
+(* ================================================================ promptness of the concrete paths *)
+(* every concrete-path return expression regenerated from bitvec.py is evaluated on integers of
+   at most about twice the word size: nothing like the unreduced lhs ** rhs is materialised *)
+Lemma py_bits_bound n v : 0 < n -> 0 <= v < 2 ^ n -> 1 <= py_bits v <= n.
 Proof.
-  intros ev eb p. split; [reflexivity|]. split; [|reflexivity].
-  cbn [denote]. unfold bl_not. rewrite bl_is_zero_den. reflexivity.
+  intros Hn Hv. unfold py_bits. rewrite Z.abs_eq by lia.
+  destruct (Z.eq_dec v 0) as [->|Hne]; [cbn; lia|].
+  pose proof (Z.log2_nonneg v). assert (Z.log2 v < n) by (apply Z.log2_lt_pow2; lia). lia.
 Qed.
 
-Lemma not_refuted :
-  ~ (forall ev eb a, wf ev eb a ->
-       exists r, run1 NOT a = Ok r /\ denote ev eb r = evm_not (denote ev eb a)).
+Lemma py_bits_size n : 0 < n -> 1 <= py_bits n <= n.
 Proof.
-  intros H. destruct (H (fun _ => 0) (fun _ => false) (VBool (BC true)) I) as [r [E D]].
-  cbn in E. injection E as <-. vm_compute in D. discriminate.
+  intros Hn. apply py_bits_bound; [assumption|]. split; [lia|]. apply Z.pow_gt_lin_r; lia.
 Qed.
 
-(* F15: all-concrete ADDMOD / MULMOD with modulus zero *)
-Lemma modzero_refuted : forall o,
-  ~ (forall ev eb a b c, wf ev eb a -> wf ev eb b -> wf ev eb c -> exists r, run3 o a b c = Ok r).
+Lemma exp_prompt n x y : 0 < n -> 0 <= x < 2 ^ n -> 0 <= y < 2 ^ n ->
+  exp_work n (Cv x) (Cv y) <= 2 * n + 2.
 Proof.
-  intros o H.
-  assert (W0 : forall v, 0 <= v < 2 ^ 256 -> wf (fun _ => 0) (fun _ => false) (VBV (Cv v))) by (intros v Hv; exact Hv).
-  destruct (H (fun _ => 0) (fun _ => false) (VBV (Cv 5)) (VBV (Cv 6)) (VBV (Cv 0))) as [r E];
-    try (apply W0; split; [lia|reflexivity]).
-  destruct o; discriminate E.
+  intros Hn Hx Hy. unfold exp_work. destruct (g_exp_1 y || g_exp_2 y); [lia|].
+  unfold rw_exp_1.
+  pose proof (py_bits_bound n x Hn Hx). pose proof (py_bits_bound n y Hn Hy). pose proof (py_bits_size n Hn).
+  lia.
 Qed.
 
-(* F2: concrete EXP materialises the unreduced power *)
-Lemma log2_pow_lower x y : 1 < x -> 0 <= y -> y * Z.log2 x <= Z.log2 (x ^ y).
+Lemma conc_work_bounded n x y z k : 0 < n ->
+  0 <= x < 2 ^ n -> 0 <= y < 2 ^ n -> 0 <= z < 2 ^ n -> 0 <= k < 2 ^ n -> g_lshl_2 k n = false ->
+  rw_add_1 y x <= n + 1 /\ rw_sub_1 y x <= n + 1 /\ rw_mul_1 x y <= 2 * n /\
+  rw_div_1 x y <= n /\ rw_mod_1 x y <= n /\ rw_exp_1 x y n <= 2 * n + 2 /\
+  rw_addmod_1 z y x <= n + 1 /\ rw_mulmod_1 z y x <= 2 * n /\
+  rw_lshl_1 x k <= 2 * n /\ rw_lshr_1 x y <= n /\ rw_bitwise_not_1 n x <= n + 2 /\
+  rw_bitwise_and_1 y x <= n /\ rw_bitwise_or_1 y x <= n /\ rw_bitwise_xor_1 y x <= n.
 Proof.
-  intros Hx Hy. pose proof (Z.log2_nonneg x) as Hl.
-  pose proof (Z.log2_spec x ltac:(lia)) as [Hlo _].
-  assert (H : (2 ^ Z.log2 x) ^ y <= x ^ y).
-  { apply Z.pow_le_mono_l. split; [apply Z.lt_le_incl, pow2_pos; assumption|assumption]. }
-  rewrite <- Z.pow_mul_r in H by lia.
-  apply Z.log2_le_mono in H. rewrite Z.log2_pow2 in H by nia. lia.
+  intros Hn Hx Hy Hz Hk Hg. unfold g_lshl_2 in Hg.
+  pose proof (py_bits_bound n x Hn Hx). pose proof (py_bits_bound n y Hn Hy).
+  pose proof (py_bits_bound n z Hn Hz). pose proof (py_bits_bound n k Hn Hk). pose proof (py_bits_size n Hn).
+  unfold rw_add_1, rw_sub_1, rw_mul_1, rw_div_1, rw_mod_1, rw_exp_1, rw_addmod_1, rw_mulmod_1,
+    rw_lshl_1, rw_lshr_1, rw_bitwise_not_1, rw_bitwise_and_1, rw_bitwise_or_1, rw_bitwise_xor_1.
+  repeat split; lia.
 Qed.
 
-Lemma exp_not_prompt :
-  exists a e, 0 <= a < 2 ^ 256 /\ 0 <= e < 2 ^ 256 /\
-    bv_exp 256 true true 2 (Cv a) (Cv e) = Ok (mk_int 256 (a ^ e)) /\
-    2 ^ 64 <= Z.log2 (a ^ e).
-Proof.
-  exists 2, (2 ^ 64). split; [split; [lia|reflexivity]|]. split; [split; [lia|reflexivity]|].
-  split.
-  - apply exp_concrete_path; intros H; discriminate H.
-  - pose proof (log2_pow_lower 2 (2 ^ 64) ltac:(lia) ltac:(lia)) as H.
-    change (Z.log2 2) with 1 in H. rewrite Z.mul_1_r in H. exact H.
-Qed.
-
-Lemma exp_work_lower x y : 1 < x -> 1 < y ->
-  exp_work (Cv x) (Cv y) = y * Z.log2 x /\ exp_work (Cv x) (Cv y) <= Z.log2 (x ^ y).
-Proof.
-  intros Hx Hy. unfold exp_work.
-  destruct (Z.leb_spec y 1); [lia|]. destruct (Z.leb_spec x 1); [lia|]. cbn [orb].
-  split; [reflexivity|apply log2_pow_lower; lia].
-Qed.
+(* the concrete-path expressions without `//` / `%` have no divisor at all *)
+Lemma conc_no_divisors n x y k :
+  rd_add_1 y x = [] /\ rd_sub_1 y x = [] /\ rd_mul_1 x y = [] /\ rd_exp_1 x y n = [] /\ rd_lshl_1 x k = [] /\
+  rd_lshr_1 x k = [] /\ rd_bitwise_not_1 n x = [] /\ rd_bitwise_and_1 y x = [] /\ rd_bitwise_or_1 y x = [] /\
+  rd_bitwise_xor_1 y x = [].
+Proof. repeat split; reflexivity. Qed.
 
 (* latent: with abstraction=None (never used by sevm.py) a symbolic zero divisor gives the
    SMT-LIB value 2^n - 1, and sdiv raises TypeError *)
 Lemma div_noabs_latent :
-  exists ev eb a b, bvwf ev eb 256 a /\ bvwf ev eb 256 b /\
-    bv_den ev eb (bv_div 256 false a b) <> evm_div (bv_den ev eb a) (bv_den ev eb b).
+  exists ev eb a b r, bvwf ev eb 256 a /\ bvwf ev eb 256 b /\ bv_div 256 None a b = Ok r /\
+    bv_den ev eb r <> evm_div (bv_den ev eb a) (bv_den ev eb b).
 Proof.
   exists (fun id => if id =? 0 then 7 else 0), (fun _ => false), (Sv (TVar 0)), (Sv (TVar 1)).
-  split; [split; [cbn; lia|reflexivity]|]. split; [split; [cbn; lia|reflexivity]|].
-  vm_compute. discriminate.
+  eexists. split; [split; [cbn; lia|reflexivity]|]. split; [split; [cbn; lia|reflexivity]|].
+  split; [reflexivity|]. vm_compute. discriminate.
 Qed.
 
-Lemma sdiv_noabs_latent : forall n t u, bv_sdiv n false (Sv t) (Sv u) = Err ETypeError.
+Lemma sdiv_noabs_latent : forall n t u, bv_sdiv n None (Sv t) (Sv u) = Err ETypeError.
 Proof. reflexivity. Qed.
 
 (* ================================================================ statements over [in_word (denote a)] *)
@@ -1264,147 +1431,211 @@ Proof. destruct a as [x|p]; cbn [wf denote]; [exact (fun H => H)|exact (fun _ =>
 
 Lemma P_ADD ev eb sebc a b : in_word (denote ev eb a) -> in_word (denote ev eb b) ->
   exists r, run2 sebc ADD a b = Ok r /\ denote ev eb r = evm_add (denote ev eb a) (denote ev eb b).
-Proof. intros Ha Hb. apply run_add; apply wf_iw; assumption. Qed.
+Proof. intros Ha Hb. rewrite ?run2_is_ref, ?run1_is_ref, ?run3_is_ref in *. apply run_add; apply wf_iw; assumption. Qed.
 
 Lemma P_MUL ev eb sebc a b : in_word (denote ev eb a) -> in_word (denote ev eb b) ->
   exists r, run2 sebc MUL a b = Ok r /\ denote ev eb r = evm_mul (denote ev eb a) (denote ev eb b).
-Proof. intros Ha Hb. apply run_mul; apply wf_iw; assumption. Qed.
+Proof. intros Ha Hb. rewrite ?run2_is_ref, ?run1_is_ref, ?run3_is_ref in *. apply run_mul; apply wf_iw; assumption. Qed.
 
 Lemma P_SUB ev eb sebc a b : in_word (denote ev eb a) -> in_word (denote ev eb b) ->
   exists r, run2 sebc SUB a b = Ok r /\ denote ev eb r = evm_sub (denote ev eb a) (denote ev eb b).
-Proof. intros Ha Hb. apply run_sub; apply wf_iw; assumption. Qed.
+Proof. intros Ha Hb. rewrite ?run2_is_ref, ?run1_is_ref, ?run3_is_ref in *. apply run_sub; apply wf_iw; assumption. Qed.
 
 Lemma P_DIV ev eb sebc a b : in_word (denote ev eb a) -> in_word (denote ev eb b) ->
   exists r, run2 sebc DIV a b = Ok r /\ denote ev eb r = evm_div (denote ev eb a) (denote ev eb b).
-Proof. intros Ha Hb. apply run_div; apply wf_iw; assumption. Qed.
+Proof. intros Ha Hb. rewrite ?run2_is_ref, ?run1_is_ref, ?run3_is_ref in *. apply run_div; apply wf_iw; assumption. Qed.
 
 Lemma P_SDIV ev eb sebc a b : in_word (denote ev eb a) -> in_word (denote ev eb b) ->
   exists r, run2 sebc SDIV a b = Ok r /\ denote ev eb r = evm_sdiv (denote ev eb a) (denote ev eb b).
-Proof. intros Ha Hb. apply run_sdiv; apply wf_iw; assumption. Qed.
+Proof. intros Ha Hb. rewrite ?run2_is_ref, ?run1_is_ref, ?run3_is_ref in *. apply run_sdiv; apply wf_iw; assumption. Qed.
 
 Lemma P_MOD ev eb sebc a b : in_word (denote ev eb a) -> in_word (denote ev eb b) ->
   exists r, run2 sebc MOD a b = Ok r /\ denote ev eb r = evm_mod (denote ev eb a) (denote ev eb b).
-Proof. intros Ha Hb. apply run_mod; apply wf_iw; assumption. Qed.
+Proof. intros Ha Hb. rewrite ?run2_is_ref, ?run1_is_ref, ?run3_is_ref in *. apply run_mod; apply wf_iw; assumption. Qed.
 
 Lemma P_SMOD ev eb sebc a b : in_word (denote ev eb a) -> in_word (denote ev eb b) ->
   exists r, run2 sebc SMOD a b = Ok r /\ denote ev eb r = evm_smod (denote ev eb a) (denote ev eb b).
-Proof. intros Ha Hb. apply run_smod; apply wf_iw; assumption. Qed.
+Proof. intros Ha Hb. rewrite ?run2_is_ref, ?run1_is_ref, ?run3_is_ref in *. apply run_smod; apply wf_iw; assumption. Qed.
 
 Lemma P_EXP ev eb sebc a b : in_word (denote ev eb a) -> in_word (denote ev eb b) ->
   exists r, run2 sebc EXP a b = Ok r /\ denote ev eb r = evm_exp (denote ev eb a) (denote ev eb b).
-Proof. intros Ha Hb. apply run_exp; apply wf_iw; assumption. Qed.
+Proof. intros Ha Hb. rewrite ?run2_is_ref, ?run1_is_ref, ?run3_is_ref in *. apply run_exp; apply wf_iw; assumption. Qed.
 
 Lemma P_LT ev eb sebc a b : in_word (denote ev eb a) -> in_word (denote ev eb b) ->
   exists r, run2 sebc LT a b = Ok r /\ denote ev eb r = evm_lt (denote ev eb a) (denote ev eb b).
-Proof. intros Ha Hb. apply run_lt; apply wf_iw; assumption. Qed.
+Proof. intros Ha Hb. rewrite ?run2_is_ref, ?run1_is_ref, ?run3_is_ref in *. apply run_lt; apply wf_iw; assumption. Qed.
 
 Lemma P_GT ev eb sebc a b : in_word (denote ev eb a) -> in_word (denote ev eb b) ->
   exists r, run2 sebc GT a b = Ok r /\ denote ev eb r = evm_gt (denote ev eb a) (denote ev eb b).
-Proof. intros Ha Hb. apply run_gt; apply wf_iw; assumption. Qed.
+Proof. intros Ha Hb. rewrite ?run2_is_ref, ?run1_is_ref, ?run3_is_ref in *. apply run_gt; apply wf_iw; assumption. Qed.
 
 Lemma P_SLT ev eb sebc a b : in_word (denote ev eb a) -> in_word (denote ev eb b) ->
   exists r, run2 sebc SLT a b = Ok r /\ denote ev eb r = evm_slt (denote ev eb a) (denote ev eb b).
-Proof. intros Ha Hb. apply run_slt; apply wf_iw; assumption. Qed.
+Proof. intros Ha Hb. rewrite ?run2_is_ref, ?run1_is_ref, ?run3_is_ref in *. apply run_slt; apply wf_iw; assumption. Qed.
 
 Lemma P_SGT ev eb sebc a b : in_word (denote ev eb a) -> in_word (denote ev eb b) ->
   exists r, run2 sebc SGT a b = Ok r /\ denote ev eb r = evm_sgt (denote ev eb a) (denote ev eb b).
-Proof. intros Ha Hb. apply run_sgt; apply wf_iw; assumption. Qed.
+Proof. intros Ha Hb. rewrite ?run2_is_ref, ?run1_is_ref, ?run3_is_ref in *. apply run_sgt; apply wf_iw; assumption. Qed.
 
 Lemma P_EQ ev eb sebc a b : in_word (denote ev eb a) -> in_word (denote ev eb b) ->
   exists r, run2 sebc EQ a b = Ok r /\ denote ev eb r = evm_eq (denote ev eb a) (denote ev eb b).
-Proof. intros Ha Hb. apply run_eq; apply wf_iw; assumption. Qed.
+Proof. intros Ha Hb. rewrite ?run2_is_ref, ?run1_is_ref, ?run3_is_ref in *. apply run_eq; apply wf_iw; assumption. Qed.
 
 Lemma P_AND ev eb sebc a b : in_word (denote ev eb a) -> in_word (denote ev eb b) ->
   exists r, run2 sebc AND a b = Ok r /\ denote ev eb r = evm_and (denote ev eb a) (denote ev eb b).
-Proof. intros Ha Hb. apply run_and; apply wf_iw; assumption. Qed.
+Proof. intros Ha Hb. rewrite ?run2_is_ref, ?run1_is_ref, ?run3_is_ref in *. apply run_and; apply wf_iw; assumption. Qed.
 
 Lemma P_OR ev eb sebc a b : in_word (denote ev eb a) -> in_word (denote ev eb b) ->
   exists r, run2 sebc OR a b = Ok r /\ denote ev eb r = evm_or (denote ev eb a) (denote ev eb b).
-Proof. intros Ha Hb. apply run_or; apply wf_iw; assumption. Qed.
+Proof. intros Ha Hb. rewrite ?run2_is_ref, ?run1_is_ref, ?run3_is_ref in *. apply run_or; apply wf_iw; assumption. Qed.
 
 Lemma P_XOR ev eb sebc a b : in_word (denote ev eb a) -> in_word (denote ev eb b) ->
   exists r, run2 sebc XOR a b = Ok r /\ denote ev eb r = evm_xor (denote ev eb a) (denote ev eb b).
-Proof. intros Ha Hb. apply run_xor; apply wf_iw; assumption. Qed.
+Proof. intros Ha Hb. rewrite ?run2_is_ref, ?run1_is_ref, ?run3_is_ref in *. apply run_xor; apply wf_iw; assumption. Qed.
 
 Lemma P_BYTE ev eb sebc a b : in_word (denote ev eb a) -> in_word (denote ev eb b) ->
   exists r, run2 sebc BYTE a b = Ok r /\ denote ev eb r = evm_byte (denote ev eb a) (denote ev eb b).
-Proof. intros Ha Hb. apply run_byte; apply wf_iw; assumption. Qed.
+Proof. intros Ha Hb. rewrite ?run2_is_ref, ?run1_is_ref, ?run3_is_ref in *. apply run_byte; apply wf_iw; assumption. Qed.
 
 Lemma P_SHL ev eb sebc a b : in_word (denote ev eb a) -> in_word (denote ev eb b) ->
   exists r, run2 sebc SHL a b = Ok r /\ denote ev eb r = evm_shl (denote ev eb a) (denote ev eb b).
-Proof. intros Ha Hb. apply run_shl; apply wf_iw; assumption. Qed.
+Proof. intros Ha Hb. rewrite ?run2_is_ref, ?run1_is_ref, ?run3_is_ref in *. apply run_shl; apply wf_iw; assumption. Qed.
 
 Lemma P_SHR ev eb sebc a b : in_word (denote ev eb a) -> in_word (denote ev eb b) ->
   exists r, run2 sebc SHR a b = Ok r /\ denote ev eb r = evm_shr (denote ev eb a) (denote ev eb b).
-Proof. intros Ha Hb. apply run_shr; apply wf_iw; assumption. Qed.
+Proof. intros Ha Hb. rewrite ?run2_is_ref, ?run1_is_ref, ?run3_is_ref in *. apply run_shr; apply wf_iw; assumption. Qed.
 
 Lemma P_SAR ev eb sebc a b : in_word (denote ev eb a) -> in_word (denote ev eb b) ->
   exists r, run2 sebc SAR a b = Ok r /\ denote ev eb r = evm_sar (denote ev eb a) (denote ev eb b).
-Proof. intros Ha Hb. apply run_sar; apply wf_iw; assumption. Qed.
+Proof. intros Ha Hb. rewrite ?run2_is_ref, ?run1_is_ref, ?run3_is_ref in *. apply run_sar; apply wf_iw; assumption. Qed.
 
 Lemma P_SIGNEXTEND ev eb sebc a b s : in_word (denote ev eb a) -> in_word (denote ev eb b) -> popi a = Cv s ->
   exists r, run2 sebc SIGNEXTEND a b = Ok r /\ denote ev eb r = evm_signextend (denote ev eb a) (denote ev eb b).
-Proof. intros Ha Hb E. apply (run_signextend ev eb sebc a b s); try apply wf_iw; assumption. Qed.
+Proof. intros Ha Hb E. rewrite ?run2_is_ref, ?run1_is_ref, ?run3_is_ref in *. apply (run_signextend ev eb sebc a b s); try apply wf_iw; assumption. Qed.
+
+Lemma P_SIGNEXTEND_symbolic sebc a b t : popi a = Sv t -> run2 sebc SIGNEXTEND a b = Err ENotConcrete.
+Proof. intros E. rewrite run2_is_ref. exact (run_signextend_symbolic sebc a b t E). Qed.
 
 Lemma P_ISZERO ev eb a : in_word (denote ev eb a) ->
   exists r, run1 ISZERO a = Ok r /\ denote ev eb r = evm_iszero (denote ev eb a).
-Proof. intros Ha. apply run_iszero; apply wf_iw; assumption. Qed.
+Proof. intros Ha. rewrite ?run2_is_ref, ?run1_is_ref, ?run3_is_ref in *. apply run_iszero; apply wf_iw; assumption. Qed.
 
-Lemma P_NOT_bv ev eb x : in_word (bv_den ev eb x) ->
-  exists r, run1 NOT (VBV x) = Ok r /\ denote ev eb r = evm_not (bv_den ev eb x).
-Proof. intros Hx. apply run_not_bv. exact Hx. Qed.
-
-Lemma P_NOT_refuted :
-  ~ (forall ev eb a, in_word (denote ev eb a) ->
-       exists r, run1 NOT a = Ok r /\ denote ev eb r = evm_not (denote ev eb a)).
+Lemma iw_bool ev eb v : wf ev eb v -> in_word (denote ev eb v).
 Proof.
-  intros H. apply not_refuted. intros ev eb a Ha. apply (H ev eb a).
-  destruct a as [x|p]; cbn [wf denote] in *; [exact Ha|]. destruct (bl_den ev eb p); split; try reflexivity; cbn; lia.
+  destruct v as [x|p]; cbn [wf denote]; intros Hv; [exact Hv|].
+  destruct (bl_den ev eb p); split; try reflexivity; cbn; lia.
 Qed.
+
+Lemma P_NOT ev eb a : in_word (denote ev eb a) ->
+  exists r, run1 NOT a = Ok r /\ denote ev eb r = evm_not (denote ev eb a).
+Proof. intros Ha. rewrite ?run2_is_ref, ?run1_is_ref, ?run3_is_ref in *. apply run_not; apply wf_iw; assumption. Qed.
+
+Lemma P_NOT_bool ev eb p :
+  exists r, run1 NOT (VBool p) = Ok r /\ denote ev eb r = W - 1 - b2w (bl_den ev eb p).
+Proof. rewrite run1_is_ref. apply (run_not ev eb (VBool p)). exact I. Qed.
 
 Lemma P_ADDMOD ev eb a b c : in_word (denote ev eb a) -> in_word (denote ev eb b) -> in_word (denote ev eb c) ->
-  (match popi a, popi b, popi c with Cv _, Cv _, Cv z => z =? 0 | _, _, _ => false end) = false ->
   exists r, run3 ADDMOD a b c = Ok r /\ denote ev eb r = evm_addmod (denote ev eb a) (denote ev eb b) (denote ev eb c).
-Proof. intros Ha Hb Hc Hz. apply run_addmod; try apply wf_iw; assumption. Qed.
+Proof. intros Ha Hb Hc. rewrite ?run2_is_ref, ?run1_is_ref, ?run3_is_ref in *. apply run_addmod; apply wf_iw; assumption. Qed.
 
 Lemma P_MULMOD ev eb a b c : in_word (denote ev eb a) -> in_word (denote ev eb b) -> in_word (denote ev eb c) ->
-  (match popi a, popi b, popi c with Cv _, Cv _, Cv z => z =? 0 | _, _, _ => false end) = false ->
   exists r, run3 MULMOD a b c = Ok r /\ denote ev eb r = evm_mulmod (denote ev eb a) (denote ev eb b) (denote ev eb c).
-Proof. intros Ha Hb Hc Hz. apply run_mulmod; try apply wf_iw; assumption. Qed.
+Proof. intros Ha Hb Hc. rewrite ?run2_is_ref, ?run1_is_ref, ?run3_is_ref in *. apply run_mulmod; apply wf_iw; assumption. Qed.
 
-Lemma P_modzero_crash o a b c :
-  (match popi a, popi b, popi c with Cv _, Cv _, Cv z => z =? 0 | _, _, _ => false end) = true ->
-  run3 o a b c = Err EZeroDivision.
-Proof. exact (run_modzero_crash o a b c). Qed.
+Lemma P_total3 ev eb o a b c : in_word (denote ev eb a) -> in_word (denote ev eb b) -> in_word (denote ev eb c) ->
+  exists r, run3 o a b c = Ok r.
+Proof. intros Ha Hb Hc. rewrite ?run2_is_ref, ?run1_is_ref, ?run3_is_ref in *. apply (run3_total ev eb); apply wf_iw; assumption. Qed.
 
-Lemma P_modzero_refuted : forall o,
-  ~ (forall ev eb a b c, in_word (denote ev eb a) -> in_word (denote ev eb b) -> in_word (denote ev eb c) ->
-       exists r, run3 o a b c = Ok r).
+Lemma P_total1 ev eb o a : in_word (denote ev eb a) -> exists r, run1 o a = Ok r.
 Proof.
-  intros o H. apply (modzero_refuted o). intros ev eb a b c Ha Hb Hc.
-  assert (IW : forall v, wf ev eb v -> in_word (denote ev eb v)).
-  { intros [x|p] Hv; cbn [wf denote] in *; [exact Hv|]. destruct (bl_den ev eb p); split; try reflexivity; cbn; lia. }
-  apply (H ev eb a b c); apply IW; assumption.
+  intros Ha. rewrite run1_is_ref. destruct o.
+  - destruct (run_iszero ev eb a (wf_iw ev eb a Ha)) as [r [E _]]; eauto.
+  - destruct (run_not ev eb a (wf_iw ev eb a Ha)) as [r [E _]]; eauto.
 Qed.
+
+Lemma frame_gen (R : res st) (R0 : res st) (v : res val) rest path :
+  obs R = obs_ref v rest path -> obs R0 = obs_ref v [] path ->
+  match R with
+  | Ok s => exists r, only R0 = Ok r /\ stk s = r :: rest /\ pth s = (match R0 with Ok s0 => pth s0 | Err _ => [] end)
+  | Err e => only R0 = Err e
+  end.
+Proof.
+  intros H H0. destruct R as [s|e], R0 as [s0|e0], v as [w|e']; cbn in *; try congruence.
+  injection H as H1 H2. injection H0 as H3 H4. exists w. rewrite H3. repeat split; congruence.
+Qed.
+
+Lemma P_frame2 sebc o a b rest :
+  match run2s sebc o a b rest with
+  | Ok s => exists r, run2 sebc o a b = Ok r /\ stk s = r :: rest /\ pth s = arith_axioms sebc o a b
+  | Err e => run2 sebc o a b = Err e
+  end.
+Proof. exact (frame_gen _ _ _ _ _ (run2s_is_ref sebc o a b rest) (run2s_is_ref sebc o a b [])). Qed.
+
+Lemma P_frame1 o a rest :
+  match run1s o a rest with
+  | Ok s => exists r, run1 o a = Ok r /\ stk s = r :: rest /\ pth s = []
+  | Err e => run1 o a = Err e
+  end.
+Proof.
+  pose proof (frame_gen _ _ _ _ _ (run1s_is_ref o a rest) (run1s_is_ref o a [])) as H.
+  pose proof (run1s_is_ref o a []) as H0. fold (run1 o a) in H.
+  destruct (run1s o a rest) as [s|e]; [|exact H]. destruct H as [r [E [S P]]]. exists r. repeat split; try assumption.
+  rewrite P. destruct (run1s o a []) as [s0|e0]; [|reflexivity].
+  destruct (run1_ref o a); cbn in H0; [injection H0 as _ H1; exact H1|discriminate].
+Qed.
+
+Lemma P_frame3 o a b c rest :
+  match run3s o a b c rest with
+  | Ok s => exists r, run3 o a b c = Ok r /\ stk s = r :: rest /\ pth s = []
+  | Err e => run3 o a b c = Err e
+  end.
+Proof.
+  pose proof (frame_gen _ _ _ _ _ (run3s_is_ref o a b c rest) (run3s_is_ref o a b c [])) as H.
+  pose proof (run3s_is_ref o a b c []) as H0. fold (run3 o a b c) in H.
+  destruct (run3s o a b c rest) as [s|e]; [|exact H]. destruct H as [r [E [S P]]]. exists r. repeat split; try assumption.
+  rewrite P. destruct (run3s o a b c []) as [s0|e0]; [|reflexivity].
+  destruct (run3_ref o a b c); cbn in H0; [injection H0 as _ H1; exact H1|discriminate].
+Qed.
+
+Lemma P_prompt_EXP a e : 0 <= a < 2 ^ 256 -> 0 <= e < 2 ^ 256 ->
+  exp_work 256 (Cv a) (Cv e) <= 514 /\
+  exists r, bv_exp 256 (Some Fexp) (Some Fmul) 2 (Cv a) (Cv e) = Ok r /\
+    bv_den (fun _ => 0) (fun _ => false) r = (a ^ e) mod 2 ^ 256.
+Proof.
+  intros Ha He. split.
+  - exact (exp_prompt 256 a e ltac:(reflexivity) Ha He).
+  - exact (bv_exp_den (fun _ => 0) (fun _ => false) 256 2 (Cv a) (Cv e) ltac:(reflexivity) Ha He).
+Qed.
+
+(* all-concrete ADDMOD / MULMOD with modulus 0: answered by the `modulus.value == 0` guard *)
+Lemma P_modzero o a b c x y : popi a = Cv x -> popi b = Cv y -> popi c = Cv 0 ->
+  run3 o a b c = Ok (VBV (Cv 0)).
+Proof. intros Ea Eb Ec. rewrite run3_is_ref. destruct o; cbn [run3_ref]; rewrite Ea, Eb, Ec; reflexivity. Qed.
 
 Lemma P_total ev eb sebc o a b : in_word (denote ev eb a) -> in_word (denote ev eb b) ->
   (o = SIGNEXTEND -> exists s, popi a = Cv s) ->
   exists r, run2 sebc o a b = Ok r.
-Proof. intros Ha Hb Hs. apply (run2_total ev eb); try apply wf_iw; assumption. Qed.
+Proof. intros Ha Hb Hs. rewrite ?run2_is_ref, ?run1_is_ref, ?run3_is_ref in *. apply (run2_total ev eb); try apply wf_iw; assumption. Qed.
 
 Lemma P_fast_agree ev eb sebc o a b a' b' r r' :
   in_word (denote ev eb a) -> in_word (denote ev eb b) -> in_word (denote ev eb a') -> in_word (denote ev eb b') ->
   denote ev eb a = denote ev eb a' -> denote ev eb b = denote ev eb b' ->
   run2 sebc o a b = Ok r -> run2 sebc o a' b' = Ok r' -> denote ev eb r = denote ev eb r'.
-Proof. intros. eapply (run2_fast_agree ev eb sebc o a b a' b'); try apply wf_iw; eassumption. Qed.
+Proof. intros. rewrite ?run2_is_ref, ?run1_is_ref, ?run3_is_ref in *. eapply (run2_fast_agree ev eb sebc o a b a' b'); try apply wf_iw; eassumption. Qed.
 
 Lemma P_fast_agree3 ev eb o a b c a' b' c' r r' :
   in_word (denote ev eb a) -> in_word (denote ev eb b) -> in_word (denote ev eb c) ->
   in_word (denote ev eb a') -> in_word (denote ev eb b') -> in_word (denote ev eb c') ->
   denote ev eb a = denote ev eb a' -> denote ev eb b = denote ev eb b' -> denote ev eb c = denote ev eb c' ->
   run3 o a b c = Ok r -> run3 o a' b' c' = Ok r' -> denote ev eb r = denote ev eb r'.
-Proof. intros. eapply (run3_fast_agree ev eb o a b c a' b' c'); try apply wf_iw; eassumption. Qed.
+Proof. intros. rewrite ?run2_is_ref, ?run1_is_ref, ?run3_is_ref in *. eapply (run3_fast_agree ev eb o a b c a' b' c'); try apply wf_iw; eassumption. Qed.
 
-Lemma P_axioms ev eb o a b c : in_word (denote ev eb a) -> in_word (denote ev eb b) ->
-  In c (arith_axioms o a b) -> beval ev eb c = true.
-Proof. intros Ha Hb. apply arith_axioms_valid; apply wf_iw; assumption. Qed.
+Lemma P_axioms ev eb sebc o a b c : in_word (denote ev eb a) -> in_word (denote ev eb b) ->
+  In c (arith_axioms sebc o a b) -> beval ev eb c = true.
+Proof.
+  intros Ha Hb Hin. destruct (run2_ref sebc o a b) as [r|e] eqn:E.
+  - rewrite (arith_axioms_is_ref sebc o a b (ex_intro _ r E)) in Hin.
+    apply (arith_axioms_valid ev eb o a b c); try apply wf_iw; assumption.
+  - exfalso. unfold arith_axioms in Hin. pose proof (run2s_is_ref sebc o a b []) as H.
+    rewrite E in H. destruct (run2s sebc o a b []) as [s|e']; cbn in H; [discriminate|exact Hin].
+Qed.
